@@ -1,8 +1,16 @@
-(* Shared infrastructure for the C13 / C01 proofs over NegModel:
-   tactics (record projections through setters, one-if-at-a-time case analysis), the two "views" of a
-   state that the invariants read, frame lemmas for the plumbing functions of the model (one per model
-   function), output counters, and the generic induction over operation sequences.
-   Nothing here depends on the bodies of the stanza handlers. *)
+(* Shared infrastructure for the C13 / C01 proofs over NegModel.
+   Layout (each part only uses the ones above it):
+     1. tactics (projections through setters, one conditional at a time), the "core" and "deep" views of a
+        state, frame lemmas for the plumbing functions (one per model function, automatic proofs);
+     2. output counters, the ghost observer, the generic induction over operation sequences;
+     3. the invariant  Inv mode pend s acc  = lifecycle/crash (LifeI) + stream error (SerrI) + negotiation
+        phase (DeepI) + position in the step (ModeI), stated on the two views and on the outputs already
+        produced in the step, with one abstract transition lemma per kind of state change;
+     4. preservation lemmas, one per model function (auth, the stanza handlers, id handlers, dispatch,
+        open handlers, feed_item(s), timed handlers, conn_established, run_once, conn_connect, step0, step).
+        The handler bodies are walked by a generic head-first tactic (iwalk / leaf), so that small edits of
+        a handler body (HSm in particular) do not require changes here;
+     5. the consequences used by NegProofs_C13.v / NegProofs_C01.v (TopInv, step_cases, ok_*_step). *)
 Require Import LV.Common.Bytes LV.Gen.Gen_neg LV.Model.NegState LV.Model.NegModel LV.Spec.NegSpec.
 From Coq Require Import Lia ZifyBool Bool.
 Local Open Scope Z_scope.
@@ -184,7 +192,9 @@ Global Hint Rewrite q_append_deep send_gated_deep send_raw_m_deep timed_add_deep
 Definition is_conn (o : out) : bool := match o with OConnect => true | _ => false end.
 Definition is_dsc (o : out) : bool := match o with ODisconnect _ _ => true | _ => false end.
 Definition is_rawc (o : out) : bool := match o with ORawConnect => true | _ => false end.
-Definition is_crash (o : out) : bool := match o with OCrash => true | _ => false end.
+(* outputs that only a specific place may produce: the crash marker, and the answers of the two query
+   operations (which no internal function emits) *)
+Definition is_crash (o : out) : bool := match o with OCrash | OIs _ _ _ _ | OFlags _ _ => true | _ => false end.
 (* an output that the lifecycle observer ignores *)
 Definition neutral (o : out) : bool := negb (is_conn o || is_dsc o || is_rawc o || is_crash o).
 
@@ -579,6 +589,7 @@ Definition is_sec (d : deep_t) : bool := d_secured d && negb (d_tlsf d) && d_tls
 Definition near4 (d : deep_t) : Prop := (forall k, In k (d_handlers d) -> inN4 k = true) /\ d_ids d = [] /\ oh_pre (d_oh d) = true.
 Definition near3 (d : deep_t) : Prop := (forall k, In k (d_handlers d) -> inN3 k = true) /\ d_ids d = [].
 Definition dead (p : pstate) : bool := match p with PClosed | PDead => true | _ => false end.
+Definition ps_live (p : pstate) : bool := match p with POpen | PSwallow _ _ => true | _ => false end.
 
 Lemma is_secured_deep s : is_secured s = is_sec (deep s).
 Proof. reflexivity. Qed.
@@ -592,7 +603,7 @@ Record SerrI (pend : option (Z * bool)) (c : core_t) (d : deep_t) : Prop := mkSe
   S2 : c_st c <> Disconnected -> c_raw c = false ->
        match pend with None => se_eqb (c_se c) (c_serr c) = true | Some x => c_serr c = Some x end;
   S3 : c_st c <> Disconnected -> c_raw c = false ->
-       In HError (d_handlers d) \/ (oh_first (d_oh d) = true /\ (d_rp d = true \/ d_ps d = PDepth0))
+       In HError (d_handlers d) \/ (oh_first (d_oh d) = true /\ (d_rp d = true \/ ps_live (d_ps d) = false))
 }.
 
 (* the negotiation phase: under mandatory TLS nothing beyond the pre-authentication handlers exists
@@ -610,7 +621,7 @@ Record DeepI (c : core_t) (d : deep_t) : Prop := mkDeepI {
 Inductive mode : Type := MTop | MRun | MChunk | MFeed.
 Definition RunI (c : core_t) (d : deep_t) : Prop :=
   c_st c <> Connecting /\ c_alloc c = true /\
-  (c_st c <> Disconnected -> c_raw c = false -> In HError (d_handlers d) \/ (oh_first (d_oh d) = true /\ d_ps d = PDepth0)).
+  (c_st c <> Disconnected -> c_raw c = false -> In HError (d_handlers d) \/ (oh_first (d_oh d) = true /\ ps_live (d_ps d) = false)).
 Definition ModeI (m : mode) (c : core_t) (d : deep_t) : Prop :=
   match m with
   | MTop => True
@@ -1679,4 +1690,1255 @@ Proof.
   rewrite Hc. destruct (sm_enabled s3); cbn [fst snd].
   - apply (Inv_frame _ _ s3); [apply sm_handle_core|apply sm_handle_deep|exact H3].
   - exact H3.
+Qed.
+
+(* ------------------------------------------------------------------ the parser state commutes with the stream handlers *)
+Ltac comm_tac := repeat (sproj; try reflexivity; case_goal); sproj; try reflexivity.
+Lemma set_ps_q_append p w u m s : q_append w u m (set_ps p s) = set_ps p (q_append w u m s).
+Proof. unfold q_append. cbv zeta. comm_tac. Qed.
+Lemma set_ps_send_gated p w u m s : send_gated w u m (set_ps p s) = set_ps p (send_gated w u m s).
+Proof. unfold send_gated, is_connected_owner. sproj. repeat case_goal; try reflexivity; apply set_ps_q_append. Qed.
+Lemma set_ps_timed_add p k now s : timed_add k now (set_ps p s) = set_ps p (timed_add k now s).
+Proof. unfold timed_add, timed_has. comm_tac. Qed.
+Lemma set_ps_h_add p k s : h_add k (set_ps p s) = set_ps p (h_add k s).
+Proof. unfold h_add, h_has. comm_tac. Qed.
+Lemma set_ps_xmpp_disconnect p now s : xmpp_disconnect now (set_ps p s) = set_ps p (xmpp_disconnect now s).
+Proof. unfold xmpp_disconnect. sproj. case_goal; try reflexivity; rewrite set_ps_send_gated, set_ps_timed_add; reflexivity. Qed.
+Lemma set_ps_sns p s : stream_negotiation_success (set_ps p s) =
+  (set_ps p (fst (stream_negotiation_success s)), snd (stream_negotiation_success s)).
+Proof. unfold stream_negotiation_success, connect_justified, upg, ret. comm_tac. Qed.
+Lemma set_ps_open_handler p now s : open_handler now (set_ps p s) =
+  (set_ps p (fst (open_handler now s)), snd (open_handler now s)).
+Proof.
+  unfold open_handler. sproj. destruct (oh s); unfold ret; cbn [fst snd].
+  - change (timed_reset_all now (set_ps p s)) with (set_ps p (timed_reset_all now s)).
+    rewrite !set_ps_h_add, set_ps_timed_add. reflexivity.
+  - rewrite !set_ps_h_add, set_ps_timed_add. reflexivity.
+  - rewrite !set_ps_h_add, set_ps_timed_add. reflexivity.
+  - rewrite !set_ps_h_add, set_ps_timed_add. reflexivity.
+  - change (timed_reset_all now (set_ps p s)) with (set_ps p (timed_reset_all now s)).
+    rewrite !set_ps_h_add, set_ps_timed_add. sproj. case_goal; cbn [fst snd]; rewrite ?set_ps_send_gated, ?set_ps_xmpp_disconnect; reflexivity.
+  - change (timed_reset_all now (set_ps p s)) with (set_ps p (timed_reset_all now s)). apply set_ps_sns.
+  - reflexivity.
+Qed.
+Lemma set_ps_stream_start p now h s : stream_start now true h (set_ps p s) =
+  (set_ps p (fst (stream_start now true h s)), snd (stream_start now true h s)).
+Proof.
+  unfold stream_start. cbv zeta.
+  change (set_stream_id h (set_stream_id false (upg (fun g => set_g_raw_open (true || g_raw_open g) (set_g_feat_seen false g)) (set_ps p s))))
+    with (set_ps p (set_stream_id h (set_stream_id false (upg (fun g => set_g_raw_open (true || g_raw_open g) (set_g_feat_seen false g)) s)))).
+  apply set_ps_open_handler.
+Qed.
+
+(* ------------------------------------------------------------------ parser state changes *)
+Lemma InvV_set_ps m p c d acc ps' :
+  (c_st c <> Disconnected -> c_raw c = false -> In HError (d_handlers d) \/ (oh_first (d_oh d) = true /\ ps_live ps' = false)) ->
+  (m = MFeed -> c_st c = Disconnected -> ps' <> PDepth0 /\ (dead ps' = true \/ near3 d)) ->
+  InvV m p c d acc ->
+  InvV m p c (mkDeep (d_handlers d) (d_ids d) (d_oh d) ps' (d_secured d) (d_tlsp d) (d_tlsf d) (d_tlss d) (d_mand d) (d_dis d) (d_rp d)) acc.
+Proof.
+  intros He Hf [HL [s1 s2 s3] [df dts dp dm dh0] HM].
+  constructor; [assumption | constructor | constructor | ]; unfold is_sec, near4, near3 in *; deep_simpl; try assumption.
+  - intros A B. destruct (He A B) as [Q|[Q1 Q2]]; [left; exact Q|right; auto].
+  - assert (HR : RunI c d -> RunI c (mkDeep (d_handlers d) (d_ids d) (d_oh d) ps' (d_secured d) (d_tlsp d) (d_tlsf d) (d_tlss d) (d_mand d) (d_dis d) (d_rp d))).
+    { unfold RunI; deep_simpl. intros (R1 & R2 & R3). split; [assumption|]. split; [assumption|]. exact He. }
+    destruct m; cbn [ModeI] in *; unfold near3 in *; deep_simpl.
+    + exact I.
+    + auto.
+    + destruct HM as (M1 & M2 & M3). split; [auto|]. split; assumption.
+    + destruct HM as (M1 & M2). split; [auto|]. intros E. apply Hf; [reflexivity|exact E].
+Qed.
+Lemma Inv_set_ps m p ps' s acc :
+  (st s <> Disconnected -> is_raw s = false -> In HError (hkinds s) \/ (oh_first (oh s) = true /\ ps_live ps' = false)) ->
+  (m = MFeed -> st s = Disconnected -> ps' <> PDepth0 /\ (dead ps' = true \/ near3 (deep s))) ->
+  Inv m p s acc -> Inv m p (set_ps ps' s) acc.
+Proof. intros A B H. exact (InvV_set_ps m p (core s) (deep s) acc ps' A B H). Qed.
+
+Lemma Inv_h_add_pre m p k s acc :
+  inN4 k = true -> k <> HProceedTls -> (m = MChunk \/ m = MFeed -> inN3 k = false -> st s <> Disconnected) ->
+  Inv m p s acc -> Inv m p (h_add k s) acc.
+Proof. intros A B C. apply Inv_h_add; [congruence | intros Q; congruence | exact C]. Qed.
+
+Lemma ArmS_of_oh m p s acc : st s <> Disconnected -> oh_pre (oh s) = false -> Inv m p s acc -> ArmS m s.
+Proof.
+  intros Hst Hoh H. split; [intros _; exact Hst|]. intros _ Hm.
+  destruct (is_secured s) eqn:Q; [reflexivity|]. exfalso.
+  destruct (DM _ _ (ID _ _ _ _ _ H) Hst Hm Q) as (_ & _ & N3). change (oh_pre (oh s) = true) in N3. congruence.
+Qed.
+
+Lemma hkinds_timed_add k now s : hkinds (timed_add k now s) = hkinds s.
+Proof. unfold hkinds. rewrite timed_add_hl. reflexivity. Qed.
+
+(* the open handlers, on a live connection *)
+Lemma open_handler_inv p now s acc : st s <> Disconnected -> Inv MRun p s acc ->
+  RInv MRun p acc (open_handler now s) /\ st (fst (open_handler now s)) = st s /\ is_raw (fst (open_handler now s)) = is_raw s /\
+  (is_raw s = false -> In HError (hkinds (fst (open_handler now s)))).
+Proof.
+  intros Hst H. unfold RInv, open_handler.
+  assert (Hc : forall x, core x = core s -> st x = st s /\ is_raw x = is_raw s)
+    by (intros x C; pose proof (core_fields _ _ C) as (F1 & _ & F3 & _); auto).
+  assert (HE0 : oh_first (oh s) = false -> is_raw s = false -> In HError (hkinds s)).
+  { intros Q R. destruct (IM _ _ _ _ _ H) as (_ & _ & R3). destruct (R3 Hst R) as [X|[X _]]; [exact X|]. change (oh_first (oh s) = true) in X. congruence. }
+  destruct (oh s) eqn:Oh; unfold ret; cbn [fst snd]; rewrite ?app_nil_r.
+  - split; [|split; [|split]].
+    + apply (Inv_frame_fun _ _ (timed_add TMissingFeatures now)); [intro; apply timed_add_core|intro; apply timed_add_deep|].
+      apply Inv_h_add_pre; [reflexivity|discriminate|intros [Q|Q]; discriminate Q|].
+      apply Inv_h_add_pre; [reflexivity|discriminate|intros [Q|Q]; discriminate Q|].
+      apply (Inv_frame_fun _ _ (timed_reset_all now)); [intro; reflexivity|intro; reflexivity|exact H].
+    + apply Hc. autorewrite with ncore. reflexivity.
+    + apply Hc. autorewrite with ncore. reflexivity.
+    + intros _. rewrite hkinds_timed_add.
+      apply hkinds_h_add. left. apply hkinds_h_add. right. reflexivity.
+  - split; [|split; [|split]].
+    + apply (Inv_frame_fun _ _ (timed_add TMissingFeaturesSasl now)); [intro; apply timed_add_core|intro; apply timed_add_deep|].
+      apply Inv_h_add_pre; [reflexivity|discriminate|intros [Q|Q]; discriminate Q|exact H].
+    + apply Hc. autorewrite with ncore. reflexivity.
+    + apply Hc. autorewrite with ncore. reflexivity.
+    + intros R. rewrite hkinds_timed_add. apply hkinds_h_add. left. apply HE0; [reflexivity|exact R].
+  - assert (A : ArmS MRun s) by (apply (ArmS_of_oh _ p _ acc); [exact Hst|rewrite Oh; reflexivity|exact H]).
+    split; [|split; [|split]].
+    + apply (Inv_frame_fun _ _ (timed_add TMissingFeaturesSasl now)); [intro; apply timed_add_core|intro; apply timed_add_deep|].
+      apply Inv_h_add_arm; [exact A|discriminate|exact H].
+    + apply Hc. autorewrite with ncore. reflexivity.
+    + apply Hc. autorewrite with ncore. reflexivity.
+    + intros R. rewrite hkinds_timed_add. apply hkinds_h_add. left. apply HE0; [reflexivity|exact R].
+  - assert (A : ArmS MRun s) by (apply (ArmS_of_oh _ p _ acc); [exact Hst|rewrite Oh; reflexivity|exact H]).
+    split; [|split; [|split]].
+    + apply (Inv_frame_fun _ _ (timed_add TMissingFeaturesSasl now)); [intro; apply timed_add_core|intro; apply timed_add_deep|].
+      apply Inv_h_add_arm; [exact A|discriminate|exact H].
+    + apply Hc. autorewrite with ncore. reflexivity.
+    + apply Hc. autorewrite with ncore. reflexivity.
+    + intros R. rewrite hkinds_timed_add. apply hkinds_h_add. left. apply HE0; [reflexivity|exact R].
+  - assert (A : ArmS MRun s) by (apply (ArmS_of_oh _ p _ acc); [exact Hst|rewrite Oh; reflexivity|exact H]).
+    set (s1 := timed_add TMissingHandshake now (h_add HComponentHs (h_add HError (timed_reset_all now s)))).
+    assert (H1 : Inv MRun p s1 acc).
+    { unfold s1. apply (Inv_frame_fun _ _ (timed_add TMissingHandshake now)); [intro; apply timed_add_core|intro; apply timed_add_deep|].
+      apply Inv_h_add_arm; [|discriminate|].
+      - apply ArmS_h_add. apply (ArmS_frame_fun _ (timed_reset_all now)); [intro; reflexivity|intro; reflexivity|exact A].
+      - apply Inv_h_add_pre; [reflexivity|discriminate|intros [Q|Q]; discriminate Q|].
+        apply (Inv_frame_fun _ _ (timed_reset_all now)); [intro; reflexivity|intro; reflexivity|exact H]. }
+    assert (C1 : core s1 = core s) by (unfold s1; autorewrite with ncore; reflexivity).
+    assert (E1 : In HError (hkinds s1)).
+    { unfold s1. rewrite hkinds_timed_add.
+      apply hkinds_h_add. left. apply hkinds_h_add. right. reflexivity. }
+    clearbody s1.
+    destruct (stream_id s1); cbn [fst snd]; rewrite ?app_nil_r.
+    + split; [apply (Inv_frame _ _ s1); [apply send_gated_core|apply send_gated_deep|exact H1]|].
+      split; [|split]; [apply Hc; rewrite send_gated_core; exact C1 | apply Hc; rewrite send_gated_core; exact C1 |].
+      intros _. unfold hkinds. rewrite send_gated_hl. exact E1.
+    + split; [apply (Inv_frame _ _ s1); [apply xmpp_disconnect_core|apply xmpp_disconnect_deep|exact H1]|].
+      split; [|split]; [apply Hc; rewrite xmpp_disconnect_core; exact C1 | apply Hc; rewrite xmpp_disconnect_core; exact C1 |].
+      intros _. unfold hkinds. rewrite xmpp_disconnect_hl. exact E1.
+  - set (s1 := timed_reset_all now s).
+    assert (H1 : Inv MRun p s1 acc) by (apply (Inv_frame_fun _ _ (timed_reset_all now)); [intro; reflexivity|intro; reflexivity|exact H]).
+    split; [apply sns_inv; [discriminate|exact Hst|exact H1]|].
+    destruct (sns_core_st s1) as [Q1 Q2].
+    split; [exact Q1|]. split.
+    + destruct (sns_spec s1) as [(_ & _ & E)|(_ & s' & E & C' & _)]; rewrite E; cbn [fst]; [reflexivity|].
+      change (c_raw (core s') = is_raw s1). rewrite C'. reflexivity.
+    + intros R. rewrite hkinds_deep, Q2. apply HE0; [reflexivity|exact R].
+  - split; [exact H|]. split; [reflexivity|]. split; [reflexivity|]. intros R. apply HE0; [reflexivity|exact R].
+Qed.
+
+Lemma stream_start_true_inv p now h s acc : st s <> Disconnected -> Inv MRun p s acc ->
+  RInv MRun p acc (stream_start now true h s) /\ st (fst (stream_start now true h s)) = st s /\
+  is_raw (fst (stream_start now true h s)) = is_raw s /\
+  (is_raw s = false -> In HError (hkinds (fst (stream_start now true h s)))).
+Proof.
+  intros Hst H. unfold stream_start. cbv zeta.
+  set (b := set_stream_id h (set_stream_id false (upg (fun g => set_g_raw_open (true || g_raw_open g) (set_g_feat_seen false g)) s))).
+  assert (Cb : core b = core s) by reflexivity.
+  assert (Db : deep b = deep s) by reflexivity.
+  assert (Hb : Inv MRun p b acc) by (apply (Inv_frame _ _ s); assumption).
+  assert (Sb : st b = st s) by reflexivity. assert (Rb : is_raw b = is_raw s) by reflexivity.
+  clearbody b. rewrite <- Sb, <- Rb. apply open_handler_inv; [rewrite Sb; exact Hst|exact Hb].
+Qed.
+
+(* conn_disconnect on a state that agrees with an invariant-satisfying one on the core and the flags *)
+Lemma conn_disconnect_inv_gen m x s acc : (m = MTop \/ m = MRun) ->
+  core x = core s -> d_dis (deep x) = d_dis (deep s) -> d_mand (deep x) = d_mand (deep s) -> d_tlss (deep x) = d_tlss (deep s) ->
+  Inv m None s acc -> Inv m None (fst (conn_disconnect x)) (acc ++ snd (conn_disconnect x)).
+Proof.
+  intros Hm C E1 E2 E3 H.
+  destruct (H) as [HL [s1 s2 s3] [df dts dp dm dh0] HM].
+  pose proof (core_fields _ _ C) as (F1 & _ & _ & F4 & _).
+  destruct (st x) eqn:E.
+  - rewrite conn_disconnect_idle by assumption. cbn [fst snd]. rewrite app_nil_r.
+    (* disconnected: the invariant does not read the fields in which x and s may differ *)
+    assert (Es : c_st (core s) = Disconnected) by (change (st s = Disconnected); congruence).
+    unfold Inv. rewrite C.
+    constructor; [exact HL| | | ].
+    + constructor; [exact s1| |]; intros A; exfalso; apply A; exact Es.
+    + constructor; rewrite ?E1, ?E2, ?E3; try assumption; try (intros A; exfalso; apply A; exact Es). intros A. rewrite Es in A. discriminate A.
+    + destruct Hm as [-> | ->]; cbn [ModeI] in *; [exact I|]. destruct HM as (R1 & R2 & R3). split; [exact R1|]. split; [exact R2|].
+      intros A; exfalso; apply A; exact Es.
+  - assert (Hst : st x <> Disconnected) by congruence.
+    assert (Hst' : c_st (core s) <> Disconnected) by (change (st s <> Disconnected); congruence).
+    assert (Ha : sm_alloc x = true) by (rewrite F4; apply (K2 _ _ HL); exact Hst').
+    destruct (conn_disconnect_spec x Hst Ha) as (s' & l & sb & Eq & Hn & C' & Hsb & D). rewrite Eq. cbn [fst snd].
+    unfold Inv. rewrite C', D.
+    change (is_raw x) with (c_raw (core x)). change (sm_alloc x) with (c_alloc (core x)). change (crashed x) with (c_crashed (core x)).
+    change (stream_error x) with (c_se (core x)). change (g_attempt (gh x)) with (c_att (core x)). change (g_connects (gh x)) with (c_nc (core x)).
+    change (g_disconnects (gh x)) with (c_ndisc (core x)). change (g_rawc (gh x)) with (c_rawc (core x)). change (g_serr (gh x)) with (c_serr (core x)).
+    change (g_se_bad (gh x)) with (c_sebad (core x)) in Hsb. change (is_raw x) with (c_raw (core x)) in Hsb.
+    change (stream_error x) with (c_se (core x)) in Hsb. change (g_serr (gh x)) with (c_serr (core x)) in Hsb.
+    rewrite C in *.
+    apply (InvV_disconnect m None (core s) (deep s)); try assumption; try reflexivity.
+    intros R. apply (s2 Hst' R).
+  - assert (Hst : st x <> Disconnected) by congruence.
+    assert (Hst' : c_st (core s) <> Disconnected) by (change (st s <> Disconnected); congruence).
+    assert (Ha : sm_alloc x = true) by (rewrite F4; apply (K2 _ _ HL); exact Hst').
+    destruct (conn_disconnect_spec x Hst Ha) as (s' & l & sb & Eq & Hn & C' & Hsb & D). rewrite Eq. cbn [fst snd].
+    unfold Inv. rewrite C', D.
+    change (is_raw x) with (c_raw (core x)). change (sm_alloc x) with (c_alloc (core x)). change (crashed x) with (c_crashed (core x)).
+    change (stream_error x) with (c_se (core x)). change (g_attempt (gh x)) with (c_att (core x)). change (g_connects (gh x)) with (c_nc (core x)).
+    change (g_disconnects (gh x)) with (c_ndisc (core x)). change (g_rawc (gh x)) with (c_rawc (core x)). change (g_serr (gh x)) with (c_serr (core x)).
+    change (g_se_bad (gh x)) with (c_sebad (core x)) in Hsb. change (is_raw x) with (c_raw (core x)) in Hsb.
+    change (stream_error x) with (c_se (core x)) in Hsb. change (g_serr (gh x)) with (c_serr (core x)) in Hsb.
+    rewrite C in *.
+    apply (InvV_disconnect m None (core s) (deep s)); try assumption; try reflexivity.
+    intros R. apply (s2 Hst' R).
+Qed.
+
+(* ------------------------------------------------------------------ nothing below the parser layer touches the parser state *)
+Definition PsR (s0 : state) (r : R) : Prop := ps (fst r) = ps s0.
+Lemma ps_deep a b : deep a = deep b -> ps a = ps b.
+Proof. intros E. apply (deep_fields _ _ E). Qed.
+Lemma ps_frame_fun (g : state -> state) s0 : (forall x, ps (g x) = ps x) -> forall x, ps x = ps s0 -> ps (g x) = ps s0.
+Proof. intros H x E. rewrite H. exact E. Qed.
+Lemma ps_h_add k x : ps (h_add k x) = ps x.
+Proof. unfold h_add. case_goal; reflexivity. Qed.
+Lemma ps_id_add k x : ps (id_add k x) = ps x.
+Proof. unfold id_add. case_goal; reflexivity. Qed.
+Lemma ps_sns_eq x s' o : stream_negotiation_success x = (s', o) -> ps s' = ps x.
+Proof. intros E. destruct (sns_core_st x) as [_ D]. rewrite E in D. exact (ps_deep _ _ D). Qed.
+
+Ltac ps_side :=
+  intro; first [ reflexivity | apply ps_h_add | apply ps_id_add | apply ps_deep; autorewrite with ndeep; reflexivity ].
+Ltac ps_peel :=
+  lazymatch goal with
+  | |- ps (?g ?x) = ps ?s0 =>
+      lazymatch type of x with state => idtac end;
+      apply (ps_frame_fun g s0); [ ps_side | ]
+  end.
+(* generic head-first walk for a goal  P E  *)
+Ltac gstep facts :=
+  lazymatch goal with
+  | |- ?P ?E =>
+      lazymatch E with
+      | match ?c with _ => _ end =>
+          let t := find_scrut c in
+          lazymatch t with
+          | let x := ?v in @?b x =>
+              let x' := fresh "x" in pose (x' := v); change t with (b x'); cbv beta iota; facts x'
+          | ret _ => unfold ret at 1; cbv beta iota
+          | (_, _) => cbv beta iota
+          | _ => destruct t eqn:?; cbv beta iota
+          end
+      | if ?c then _ else _ =>
+          let t := find_scrut c in
+          lazymatch t with
+          | let x := ?v in @?b x =>
+              let x' := fresh "x" in pose (x' := v); change t with (b x'); cbv beta iota; facts x'
+          | ret _ => unfold ret at 1; cbv beta iota
+          | (_, _) => cbv beta iota
+          | _ => destruct t eqn:?; cbv beta iota
+          end
+      | let x := ?v in @?b x =>
+          let x' := fresh "x" in pose (x' := v); change E with (b x'); cbv beta iota; facts x'
+      end
+  end.
+Ltac ps_use_eq := fail.
+Ltac ps_fin := repeat first [ assumption | reflexivity | ps_peel | case_goal | ps_use_eq ].
+Ltac ps_facts s0 x' :=
+  lazymatch type of x' with
+  | state => assert (ps x' = ps s0) by (subst x'; ps_fin); clearbody x'
+  | _ => clearbody x'
+  end.
+Ltac ps_walk s0 := repeat gstep ltac:(ps_facts s0).
+Ltac ps_leaf := unfold PsR, ret; cbn [fst snd]; ps_fin.
+
+Ltac ps_use_eq ::=
+  match goal with
+  | E : stream_negotiation_success ?x = (?s', _) |- ps ?s' = _ => rewrite (ps_sns_eq _ _ _ E)
+  end.
+
+Lemma ps_auth_legacy now x : ps (auth_legacy now x) = ps x.
+Proof. unfold auth_legacy. ps_fin. Qed.
+Lemma ps_conn_disconnect x : ps (fst (conn_disconnect x)) = ps x.
+Proof. destruct (conn_disconnect_frame x) as (_ & _ & _ & F4 & _). exact F4. Qed.
+Lemma ps_auth fuel now : forall x, ps (fst (auth fuel now x)) = ps x.
+Proof.
+  induction fuel as [|f IH]; intros x; cbn [auth]; repeat (case_goal; unfold ret; cbn [fst]);
+    try apply ps_conn_disconnect; try (rewrite IH; reflexivity); try (rewrite ps_auth_legacy; reflexivity); ps_fin.
+Qed.
+Lemma ps_auth_eq fuel now x s' o : auth fuel now x = (s', o) -> ps s' = ps x.
+Proof. intros E. pose proof (ps_auth fuel now x) as Q. rewrite E in Q. exact Q. Qed.
+Lemma ps_do_bind now b x : ps (fst (do_bind now b x)) = ps x.
+Proof. unfold do_bind. cbv zeta. case_goal; unfold ret; cbn [fst]; ps_fin. Qed.
+Lemma ps_do_bind_eq now b x s' o : do_bind now b x = (s', o) -> ps s' = ps x.
+Proof. intros E. pose proof (ps_do_bind now b x) as Q. rewrite E in Q. exact Q. Qed.
+Lemma ps_session_start now x : ps (session_start now x) = ps x.
+Proof. unfold session_start. ps_fin. Qed.
+Lemma ps_sm_enable x : ps (sm_enable x) = ps x.
+Proof. unfold sm_enable. cbv zeta. ps_fin. Qed.
+Lemma ps_sasl_result now e x : ps (fst (sasl_result now e x)) = ps x.
+Proof. unfold sasl_result. destruct (e_name e); unfold ret; cbn [fst]; try apply ps_auth; ps_fin. Qed.
+Lemma ps_sasl_result_eq now e x s' o : sasl_result now e x = (s', o) -> ps s' = ps x.
+Proof. intros E. pose proof (ps_sasl_result now e x) as Q. rewrite E in Q. exact Q. Qed.
+Lemma ps_features_sasl now e x : PsR x (features_sasl now e x).
+Proof.
+  cbv beta delta [features_sasl]. ps_walk x.
+  all: try (unfold PsR; rewrite ps_do_bind; assumption).
+  all: ps_leaf.
+Qed.
+Lemma ps_features_sasl_eq now e x s' o : features_sasl now e x = (s', o) -> ps s' = ps x.
+Proof. intros E. pose proof (ps_features_sasl now e x) as Q. unfold PsR in Q. rewrite E in Q. exact Q. Qed.
+Lemma ps_conn_tls_start x : ps (fst (fst (conn_tls_start x))) = ps x.
+Proof.
+  pose proof (conn_tls_start_spec x) as Q. destruct (conn_tls_start x) as [[s1 o] ok]. cbn [fst].
+  destruct Q as (_ & _ & [(_ & _ & D)|[(_ & _ & D)|(_ & D)]]); change (d_ps (deep s1) = d_ps (deep x)); rewrite D; reflexivity.
+Qed.
+Lemma ps_conn_tls_start_eq x s1 o ok : conn_tls_start x = (s1, o, ok) -> ps s1 = ps x.
+Proof. intros E. pose proof (ps_conn_tls_start x) as Q. rewrite E in Q. exact Q. Qed.
+
+Ltac ps_use_eq ::=
+  match goal with
+  | E : stream_negotiation_success ?x = (?s', _) |- ps ?s' = _ => rewrite (ps_sns_eq _ _ _ E)
+  | E : auth _ _ ?x = (?s', _) |- ps ?s' = _ => rewrite (ps_auth_eq _ _ _ _ _ E)
+  | E : do_bind _ _ ?x = (?s', _) |- ps ?s' = _ => rewrite (ps_do_bind_eq _ _ _ _ _ E)
+  | E : sasl_result _ _ ?x = (?s', _) |- ps ?s' = _ => rewrite (ps_sasl_result_eq _ _ _ _ _ E)
+  | E : features_sasl _ _ ?x = (?s', _) |- ps ?s' = _ => rewrite (ps_features_sasl_eq _ _ _ _ _ E)
+  | E : conn_tls_start ?x = (?s', _, _) |- ps ?s' = _ => rewrite (ps_conn_tls_start_eq _ _ _ _ E)
+  | |- ps (session_start _ _) = _ => rewrite ps_session_start
+  | |- ps (sm_enable _) = _ => rewrite ps_sm_enable
+  | |- ps (auth_legacy _ _) = _ => rewrite ps_auth_legacy
+  end.
+
+Lemma ps_hbody k now e x : PsR x (hbody k now e x).
+Proof.
+  unfold hbody. destruct k; cbv beta iota delta [call_handler].
+  all: ps_walk x.
+  all: ps_leaf.
+Qed.
+Lemma ps_idbody k now e x : PsR x (idbody k now e x).
+Proof.
+  unfold idbody. destruct k; cbv beta iota delta [call_id_handler].
+  all: ps_walk x.
+  all: ps_leaf.
+Qed.
+Lemma ps_visit now e k x o : ps (fst (visit now e (x, o) k)) = ps x.
+Proof. rewrite visit_hbody. repeat (case_goal; try reflexivity). cbn [fst]. apply ps_hbody. Qed.
+Lemma ps_fold_visit now e l : forall x o, ps (fst (fold_left (visit now e) l (x, o))) = ps x.
+Proof.
+  induction l as [|k l IH]; intros x o; cbn [fold_left]; [reflexivity|].
+  pose proof (ps_visit now e k x o) as Q. destruct (visit now e (x, o) k) as [x1 o1]. cbn [fst] in Q. rewrite IH. exact Q.
+Qed.
+Lemma dispatch_ps now e s : ps (fst (dispatch now e s)) = ps s.
+Proof.
+  unfold dispatch. cbv zeta.
+  destruct (note_rx_spec e s) as (g' & Eg & _). rewrite Eg.
+  destruct (negb (sm_alloc (set_gh g' s))); [reflexivity|].
+  set (sb := set_handlers _ (set_gh g' s)).
+  assert (Pb : ps sb = ps s) by reflexivity. clearbody sb.
+  lazymatch goal with |- ps (fst ?T) = _ => lazymatch T with match ?F with _ => _ end => set (r1 := F) end end.
+  assert (P1 : ps (fst r1) = ps s).
+  { subst r1. destruct (idk_of (e_id e)) as [k|]; [destruct (id_has k sb)|]; unfold ret; cbn [fst]; try exact Pb.
+    rewrite <- Pb. apply ps_idbody. }
+  destruct r1 as [s1 o1]. cbn [fst] in P1.
+  pose proof (ps_fold_visit now e (map fst (filter (fun x => snd x) (handlers s1))) s1 o1) as Q.
+  lazymatch goal with |- ps (fst ?T) = _ => lazymatch T with match ?F with _ => _ end =>
+    change (ps (fst F) = ps s1) in Q; destruct F as [s3 o3] end end. cbn [fst] in Q.
+  repeat case_goal; cbn [fst]; try congruence.
+  transitivity (ps s3); [|congruence]. apply ps_deep. apply sm_handle_deep.
+Qed.
+
+Lemma stream_end_inv s acc : Inv MRun None s acc ->
+  RInv MRun None acc (stream_end s) /\ ps (fst (stream_end s)) = ps s.
+Proof.
+  intros H. unfold stream_end, RInv.
+  assert (Ha : sm_alloc s = true) by (destruct (IM _ _ _ _ _ H) as (_ & R2 & _); exact R2).
+  rewrite Ha. cbn [negb].
+  set (x := timed_del TDisconnectCleanup (set_sm_can_resume false s)).
+  split.
+  - apply (conn_disconnect_inv_gen MRun x s acc); try reflexivity; [right; reflexivity|exact H].
+  - destruct (conn_disconnect_frame x) as (_ & _ & _ & F4 & _). exact F4.
+Qed.
+
+Lemma Inv_feed_to_chunk p s acc : ps_live (ps s) = true -> Inv MFeed p s acc -> Inv MChunk p s acc.
+Proof.
+  intros Hl [A B C (R & D)]. constructor; try assumption. cbn [ModeI]. split; [exact R|]. split.
+  - intros X Y. destruct R as (_ & _ & R3). destruct (R3 X Y) as [Q|[_ Q]]; [exact Q|]. change (ps_live (ps s) = false) in Q. congruence.
+  - intros X. destruct (D X) as [_ [Q|Q]]; [|exact Q]. change (dead (ps s) = true) in Q. destruct (ps s); discriminate.
+Qed.
+Lemma Inv_chunk_to_feed p s acc : ps_live (ps s) = true -> Inv MChunk p s acc -> Inv MFeed p s acc.
+Proof.
+  intros Hl [A B C (R & _ & D)]. constructor; try assumption. cbn [ModeI]. split; [exact R|].
+  intros X. split; [|right; exact (D X)]. change (ps s <> PDepth0). intros Q. rewrite Q in Hl. discriminate.
+Qed.
+Lemma Inv_feed_to_run p s acc : Inv MFeed p s acc -> Inv MRun p s acc.
+Proof. intros [A B C (R & _)]. constructor; assumption. Qed.
+Lemma Inv_run_to_feed p s acc :
+  (st s = Disconnected -> ps s <> PDepth0 /\ (dead (ps s) = true \/ near3 (deep s))) -> Inv MRun p s acc -> Inv MFeed p s acc.
+Proof. intros D [A B C R]. constructor; try assumption. cbn [ModeI]. split; assumption. Qed.
+
+  Lemma feed_item_inv now it s acc : Inv MFeed None s acc ->
+    Inv MFeed None (fst (fst (feed_item now it s))) (acc ++ snd (fst (feed_item now it s))).
+  Proof.
+    intros H.
+    assert (HR : Inv MRun None s acc) by exact (Inv_feed_to_run _ _ _ H).
+    (* the error handler is there as soon as the parser is live *)
+    assert (HErr : forall q, ps_live (ps s) = true \/ ps_live q = true -> st s <> Disconnected -> is_raw s = false ->
+                   ps_live (ps s) = true -> In HError (hkinds s) \/ (oh_first (oh s) = true /\ ps_live q = false)).
+    { intros q _ A B L. destruct (IM _ _ _ _ _ H) as ((_ & _ & R3) & _). destruct (R3 A B) as [Q|[_ Q]]; [left; exact Q|].
+      change (ps_live (ps s) = false) in Q. congruence. }
+    (* setting a dead parser state *)
+    assert (Hdead : forall q, dead q = true -> Inv MFeed None (set_ps q s) acc).
+    { intros q Hq. apply Inv_set_ps; [| |exact H].
+      - intros A B. destruct (IM _ _ _ _ _ H) as ((_ & _ & R3) & _). destruct (R3 A B) as [Q|[Q1 Q2]]; [left; exact Q|right].
+        split; [exact Q1|]. destruct q; try discriminate Hq; reflexivity.
+      - intros _ _. split; [destruct q; discriminate|left; exact Hq]. }
+    (* moving between live parser states *)
+    assert (Hlive : forall q, ps_live (ps s) = true -> ps_live q = true -> Inv MFeed None (set_ps q s) acc).
+    { intros q L Lq. apply Inv_set_ps; [| |exact H].
+      - intros A B. destruct (IM _ _ _ _ _ H) as ((_ & _ & R3) & _). destruct (R3 A B) as [Q|[_ Q]]; [left; exact Q|].
+        change (ps_live (ps s) = false) in Q. congruence.
+      - intros _ E. destruct (IM _ _ _ _ _ H) as (_ & D). destruct (D E) as [_ [Q|Q]].
+        + change (dead (ps s) = true) in Q. destruct (ps s); discriminate.
+        + split; [destruct q; discriminate|right; exact Q]. }
+    assert (Hdisp : forall e x, ps_live (ps x) = true -> Inv MFeed None x acc ->
+               Inv MFeed None (fst (dispatch now e x)) (acc ++ snd (dispatch now e x))).
+    { intros e x L Hx. apply Inv_chunk_to_feed; [rewrite dispatch_ps; exact L|]. apply dispatch_inv. apply Inv_feed_to_chunk; assumption. }
+    unfold feed_item.
+    destruct (ps s) eqn:P.
+    - (* PDepth0 *)
+      assert (Hst : st s <> Disconnected).
+      { intros E. destruct (IM _ _ _ _ _ H) as (_ & D). destruct (D E) as [Q _]. apply Q. exact P. }
+      destruct it as [h|e| |].
+      + (* stream header *)
+        rewrite set_ps_stream_start.
+        destruct (stream_start_true_inv None now h s acc Hst HR) as (Q1 & Q2 & Q3 & Q4). unfold RInv in Q1.
+        destruct (stream_start now true h s) as [s1 o1]. cbn [fst snd] in *.
+        apply Inv_run_to_feed; [intros E; change (st s1 = Disconnected) in E; congruence|].
+        apply Inv_set_ps; [|discriminate|exact Q1].
+        intros A B. left. apply Q4. congruence.
+      + destruct (ns_eqb (e_ns e) NsStreams); cbn [fst snd]; [rewrite app_nil_r; apply Hdead; reflexivity|].
+        assert (Hfin : forall s1 o1, Inv MRun None s1 (acc ++ o1) -> ps s1 = PClosed ->
+                  Inv MFeed None (fst (fst (if crashed s1 then (s1, o1, false) else let '(s2, o2) := stream_end s1 in (s2, o1 ++ o2, false))))
+                      (acc ++ snd (fst (if crashed s1 then (s1, o1, false) else let '(s2, o2) := stream_end s1 in (s2, o1 ++ o2, false))))).
+        { intros s1 o1 H1 P1.
+          assert (Hc : crashed s1 = false) by (destruct (K1 _ _ (IL _ _ _ _ _ H1)) as [Q _]; exact Q).
+          rewrite Hc. destruct (stream_end_inv s1 (acc ++ o1) H1) as [Q1 Q2]. unfold RInv in Q1.
+          destruct (stream_end s1) as [s2 o2]. cbn [fst snd] in *. rewrite app_assoc.
+          apply Inv_run_to_feed; [|exact Q1]. intros _. rewrite Q2, P1. split; [discriminate|left; reflexivity]. }
+        destruct (ename_eqb (e_name e) NmStream).
+        * rewrite set_ps_stream_start.
+          destruct (stream_start_true_inv None now false s acc Hst HR) as (Q1 & Q2 & Q3 & Q4). unfold RInv in Q1.
+          destruct (stream_start now true false s) as [s1 o1]. cbn [fst snd] in *.
+          apply Hfin; [|reflexivity].
+          apply Inv_set_ps; [|discriminate|exact Q1].
+          intros A B. left. apply Q4. congruence.
+        * unfold stream_start. cbv zeta. cbn [orb].
+          set (x := set_stream_id false (upg (fun g => set_g_raw_open (g_raw_open g) (set_g_feat_seen false g)) (set_ps PClosed s))).
+          pose proof (conn_disconnect_inv_gen MRun x s acc (or_intror eq_refl) eq_refl eq_refl eq_refl eq_refl HR) as Q1.
+          destruct (conn_disconnect_frame x) as (_ & _ & _ & F4 & _).
+          destruct (conn_disconnect x) as [s1 o1]. cbn [fst snd] in *.
+          apply Hfin; [exact Q1|exact F4].
+      + cbn [fst snd]. rewrite app_nil_r. apply Hdead; reflexivity.
+      + cbn [fst snd]. rewrite app_nil_r. apply Hdead; reflexivity.
+    - (* POpen *)
+      destruct it as [h|e| |].
+      + cbn [fst snd]. rewrite app_nil_r. apply Hlive; [try rewrite P|]; reflexivity.
+      + pose proof (Hdisp e s) as Q. destruct (dispatch now e s) as [s1 o1]. cbn [fst snd] in *. apply Q; [try rewrite P; reflexivity|exact H].
+      + assert (Hx : Inv MRun None (set_ps PClosed s) acc).
+        { apply Inv_set_ps; [|discriminate|exact HR].
+          intros A B. destruct (IM _ _ _ _ _ H) as ((_ & _ & R3) & _). destruct (R3 A B) as [Q|[Q1 Q2]]; [left; exact Q|right; split; [exact Q1|reflexivity]]. }
+        destruct (stream_end_inv _ acc Hx) as [Q1 Q2]. unfold RInv in Q1.
+        destruct (stream_end (set_ps PClosed s)) as [s2 o2]. cbn [fst snd] in *.
+        apply Inv_run_to_feed; [|exact Q1]. intros _. rewrite Q2. split; [discriminate|left; reflexivity].
+      + cbn [fst snd]. rewrite app_nil_r. apply Hdead; reflexivity.
+    - (* PSwallow *)
+      destruct it as [h|e| |].
+      + cbn [fst snd]. rewrite app_nil_r. apply Hlive; [try rewrite P|]; reflexivity.
+      + cbn [fst snd]. rewrite app_nil_r. apply Hlive; [try rewrite P|]; reflexivity.
+      + destruct n as [|[|n']].
+        * cbn [fst snd]. rewrite app_nil_r. apply Hlive; [try rewrite P|]; reflexivity.
+        * pose proof (Hdisp (nested_stream_elem cns) (set_ps POpen s)) as Q.
+          destruct (dispatch now (nested_stream_elem cns) (set_ps POpen s)) as [s1 o1]. cbn [fst snd] in *.
+          apply Q; [reflexivity|]. apply Hlive; [try rewrite P|]; reflexivity.
+        * cbn [fst snd]. rewrite app_nil_r. apply Hlive; [try rewrite P|]; reflexivity.
+      + cbn [fst snd]. rewrite app_nil_r. apply Hdead; reflexivity.
+    - (* PClosed *)
+      cbn [fst snd]. rewrite app_nil_r. apply Hdead; reflexivity.
+    - cbn [fst snd]. rewrite app_nil_r. exact H.
+  Qed.
+
+Lemma feed_items_inv now its : forall s acc, Inv MFeed None s acc ->
+  Inv MFeed None (fst (fst (feed_items now its s))) (acc ++ snd (fst (feed_items now its s))).
+Proof.
+  induction its as [|it r IH]; intros s acc H; cbn [feed_items].
+  - cbn [fst snd]. rewrite app_nil_r. exact H.
+  - destruct (crashed s); [cbn [fst snd]; rewrite app_nil_r; exact H|].
+    pose proof (feed_item_inv now it s acc H) as Q.
+    destruct (feed_item now it s) as [[s1 o1] bad]. cbn [fst snd] in Q.
+    destruct bad; [exact Q|].
+    specialize (IH s1 (acc ++ o1) Q).
+    destruct (feed_items now r s1) as [[s2 o2] bad2]. cbn [fst snd] in *. rewrite app_assoc. exact IH.
+Qed.
+
+(* ------------------------------------------------------------------ timed handlers *)
+Lemma Inv_run_to_top p s acc : Inv MRun p s acc -> Inv MTop p s acc.
+Proof. intros [A B C D]. constructor; try assumption. exact I. Qed.
+Lemma Inv_top_to_run p s acc : st s = Connected -> reset_parser s = false -> Inv MTop p s acc -> Inv MRun p s acc.
+Proof.
+  intros Hst Hrp [A B C D]. constructor; try assumption. cbn [ModeI]. unfold RunI.
+  assert (Hn : c_st (core s) <> Disconnected) by (change (st s <> Disconnected); congruence).
+  split; [change (st s <> Connecting); congruence|]. split; [apply (K2 _ _ A); exact Hn|].
+  intros X Y. destruct (S3 _ _ _ B X Y) as [Q|[Q1 [Q2|Q2]]]; [left; exact Q| |right; auto].
+  change (reset_parser s = true) in Q2. congruence.
+Qed.
+
+Lemma auth_run fuel now s acc : Inv MRun None s acc -> RInv MRun None acc (auth fuel now s).
+Proof.
+  intros H. unfold RInv. pose proof (Inv_tlss _ _ _ _ H) as Hts.
+  destruct (f_tls_mandatory s && negb (is_secured s)) eqn:D.
+  - assert (E : auth fuel now s = conn_disconnect s).
+    { rewrite (auth_no_tls fuel now s Hts). cbn [auth]. rewrite Hts, D. reflexivity. }
+    rewrite E. apply conn_disconnect_inv; [right; reflexivity|exact H].
+  - apply auth_armed; [|exact Hts|exact H].
+    split; [intros [Q|Q]; discriminate Q|]. intros _ Hm. rewrite Hm in D. cbn [andb] in D. now apply negb_false_iff in D.
+Qed.
+
+Lemma call_timed_inv k now s acc : Inv MRun None s acc ->
+  Inv MRun None (let '(s2, o2, keep) := call_timed k now s in if keep then s2 else timed_del k s2)
+                (acc ++ let '(s2, o2, keep) := call_timed k now s in o2).
+Proof.
+  intros H. destruct k; cbn [call_timed].
+  - apply Inv_neutral; [reflexivity|exact H].
+  - pose proof (auth_run 1 now s acc H) as Q. unfold RInv in Q. destruct (auth 1 now s) as [s1 o1]. cbn [fst snd] in Q.
+    apply (Inv_frame _ _ s1); [reflexivity|reflexivity|exact Q].
+  - rewrite app_nil_r. apply (Inv_frame _ _ s); [rewrite timed_del_core; apply xmpp_disconnect_core|rewrite timed_del_deep; apply xmpp_disconnect_deep|exact H].
+  - rewrite app_nil_r. apply (Inv_frame _ _ s); [rewrite timed_del_core; apply xmpp_disconnect_core|rewrite timed_del_deep; apply xmpp_disconnect_deep|exact H].
+  - rewrite app_nil_r. apply (Inv_frame _ _ s); [rewrite timed_del_core; apply xmpp_disconnect_core|rewrite timed_del_deep; apply xmpp_disconnect_deep|exact H].
+  - rewrite app_nil_r. apply (Inv_frame _ _ s); [rewrite timed_del_core; apply xmpp_disconnect_core|rewrite timed_del_deep; apply xmpp_disconnect_deep|exact H].
+  - rewrite app_nil_r. apply (Inv_frame _ _ s); [rewrite timed_del_core; apply xmpp_disconnect_core|rewrite timed_del_deep; apply xmpp_disconnect_deep|exact H].
+  - pose proof (conn_disconnect_inv MRun s acc (or_intror eq_refl) H) as Q. destruct (conn_disconnect s) as [s1 o1]. cbn [fst snd] in Q.
+    apply (Inv_frame _ _ s1); [reflexivity|reflexivity|exact Q].
+Qed.
+
+Lemma visit_timed_inv now k s o acc : Inv MRun None s (acc ++ o) ->
+  Inv MRun None (fst (visit_timed now (s, o) k)) (acc ++ snd (visit_timed now (s, o) k)).
+Proof.
+  intros H. unfold visit_timed.
+  destruct (crashed s); [exact H|]. destruct (timed_lookup k s) as [[en stp]|]; [|exact H].
+  destruct (negb en); [exact H|]. destruct (tkind_eqb k TUser && negb (neg_done s)); [exact H|].
+  destruct (now - stp >=? tperiod s k); [|exact H]. cbv zeta.
+  assert (H1 : Inv MRun None (timed_set_stamp k now s) (acc ++ o)) by (apply (Inv_frame _ _ s); [reflexivity|reflexivity|exact H]).
+  pose proof (call_timed_inv k now _ _ H1) as Q.
+  destruct (call_timed k now (timed_set_stamp k now s)) as [[s2 o2] keep]. cbn [fst snd]. rewrite app_assoc. exact Q.
+Qed.
+
+Lemma fold_visit_timed_inv now l acc : forall s o, Inv MRun None s (acc ++ o) ->
+  Inv MRun None (fst (fold_left (visit_timed now) l (s, o))) (acc ++ snd (fold_left (visit_timed now) l (s, o))).
+Proof.
+  induction l as [|k l IH]; intros s o H; cbn [fold_left]; [exact H|].
+  pose proof (visit_timed_inv now k s o acc H) as Q. destruct (visit_timed now (s, o) k) as [s1 o1]. cbn [fst snd] in Q.
+  apply IH. exact Q.
+Qed.
+
+Lemma fire_timed_inv now s acc : Inv MRun None s acc -> RInv MRun None acc (fire_timed now s).
+Proof.
+  intros H. unfold RInv, fire_timed. destruct (st s); try (cbn [ret fst snd]; rewrite app_nil_r; exact H).
+  cbv zeta. apply fold_visit_timed_inv. rewrite app_nil_r.
+  apply (Inv_frame _ _ s); [reflexivity|reflexivity|exact H].
+Qed.
+Lemma fire_timed_idle now s : st s <> Connected -> fire_timed now s = (s, []).
+Proof. intros H. unfold fire_timed. destruct (st s); try reflexivity. congruence. Qed.
+
+(* ------------------------------------------------------------------ the event loop *)
+Lemma InvV_established p c c' d d' acc acc' :
+  c_st c = Connecting -> c_st c' = Connected -> c_raw c' = c_raw c -> c_alloc c' = c_alloc c ->
+  c_se c' = c_se c -> c_serr c' = c_serr c -> c_sebad c' = c_sebad c ->
+  LifeI c' acc' ->
+  (* the deep view may change by a TLS start only *)
+  d_handlers d' = d_handlers d -> d_ids d' = d_ids d -> d_oh d' = d_oh d -> d_ps d' = d_ps d -> d_rp d' = d_rp d ->
+  d_tlss d' = d_tlss d -> d_mand d' = d_mand d -> d_dis d' = d_dis d ->
+  (is_sec d' = false -> is_sec d = false) ->
+  InvV MTop p c d acc -> InvV MTop p c' d' acc'.
+Proof.
+  intros E0 E1 E2 E3 E4 E5 E6 HL' G1 G2 G3 G4 G5 G6 G7 G8 Hs [HL [s1 s2 s3] [df dts dp dm dh0] HM].
+  assert (N : c_st c <> Disconnected) by congruence.
+  constructor; [exact HL'| | |exact I].
+  - constructor; rewrite ?E2, ?E4, ?E5, ?E6, ?G1, ?G3, ?G4, ?G5; try assumption; intros _; [apply s2|apply s3]; exact N.
+  - constructor; unfold near4 in *; rewrite ?G1, ?G2, ?G3, ?G6, ?G7, ?G8; try assumption.
+    + intros _ Q. exfalso. exact (dh0 E0 Q).
+    + intros _ B C. apply dm; auto.
+    + intros Q. congruence.
+Qed.
+
+Lemma conn_established_inv now s acc : st s = Connecting -> Inv MTop None s acc ->
+  RInv MTop None acc (conn_established now (set_st Connected s)) /\
+  (reset_parser s = false -> reset_parser (fst (conn_established now (set_st Connected s))) = false) /\
+  st (fst (conn_established now (set_st Connected s))) <> Connecting.
+Proof.
+  intros Hst H. unfold RInv, conn_established. cbv zeta.
+  set (x := set_st Connected s).
+  assert (Hx : Inv MTop None x acc).
+  { unfold Inv. apply (InvV_established None (core s) (core x) (deep s) (deep x) acc acc); try reflexivity; try assumption; [|auto].
+    exact (LifeI_established (core s) acc Hst (IL _ _ _ _ _ H)). }
+  assert (Stx : st x = Connected) by reflexivity.
+  assert (Rpx : reset_parser x = reset_parser s) by reflexivity.
+  assert (Cx : forall y, core y = core x -> st y <> Connecting)
+    by (intros y C; pose proof (core_fields _ _ C) as (F1 & _); rewrite F1; discriminate).
+  destruct (f_legacy_ssl x && negb (is_raw x)) eqn:L.
+  - (* legacy SSL *)
+    apply andb_true_iff in L. destruct L as [_ Lr]. apply negb_true_iff in Lr.
+    pose proof (conn_tls_start_spec x) as Q. destruct (conn_tls_start x) as [[s1 o1] ok].
+    destruct Q as (C & Hn & [(Hok & Ho & D)|[(Hok & Hd & D)|(Hok & D)]]); subst ok; cbn [negb].
+    + subst o1. pose proof (conn_disconnect_inv_gen MTop s1 x acc (or_introl eq_refl) C) as Q. rewrite D in Q.
+      specialize (Q eq_refl eq_refl eq_refl Hx).
+      destruct (conn_disconnect_frame s1) as (_ & _ & _ & _ & F5).
+      assert (Rp1 : reset_parser (fst (conn_disconnect s1)) = reset_parser s1).
+      { destruct (st s1) eqn:E; [rewrite conn_disconnect_idle by assumption; reflexivity| |];
+          (destruct (sm_alloc s1) eqn:A;
+           [ assert (Hs1 : st s1 <> Disconnected) by congruence;
+             destruct (conn_disconnect_spec s1 Hs1 A) as (s' & l & sb & E1 & _ & _ & _ & D'); rewrite E1; cbn [fst];
+             change (d_rp (deep s') = d_rp (deep s1)); rewrite D'; reflexivity
+           | unfold conn_disconnect; rewrite E, A; reflexivity ]). }
+      destruct (conn_disconnect s1) as [s2 o2]. cbn [fst snd] in *.
+      split; [exact Q|]. split.
+      * intros R. rewrite Rp1. change (d_rp (deep s1) = false). rewrite D. rewrite <- Rpx in R. exact R.
+      * pose proof (core_fields _ _ C) as (F1 & _ & _ & F4 & _).
+        assert (Ha : sm_alloc s1 = true) by (rewrite F4; apply (K2 _ _ (IL _ _ _ _ _ Hx)); change (st x <> Disconnected); congruence).
+        rewrite F5; [discriminate|congruence|exact Ha].
+    + (* TLS up *)
+      assert (R1 : is_raw s1 = false) by (pose proof (core_fields _ _ C) as (_ & _ & F3 & _); congruence).
+      rewrite R1. cbn [fst snd].
+      split; [|split].
+      * apply Inv_neutral; [exact Hn|]. apply (Inv_frame _ _ s1); [apply conn_open_stream_core|apply conn_open_stream_deep|].
+        unfold Inv. rewrite C, D.
+        assert (Hx' : Inv MTop None s acc) by exact H.
+        apply (InvV_established None (core s) (core x) (deep s) _ acc acc); try reflexivity; try assumption.
+        -- exact (LifeI_established (core s) acc Hst (IL _ _ _ _ _ H)).
+        -- unfold is_sec. cbn [d_secured d_tlsf d_tlsp]. change (d_tlsf (deep x)) with (d_tlsf (deep s)).
+           intros Q. rewrite andb_true_r in Q. cbn [andb] in Q. apply negb_false_iff in Q. rewrite Q. cbn [negb]. rewrite andb_false_r. reflexivity.
+      * intros R. change (d_rp (deep (conn_open_stream s1)) = false). rewrite conn_open_stream_deep, D. rewrite <- Rpx in R. exact R.
+      * apply Cx. rewrite conn_open_stream_core. exact C.
+    + (* TLS failed *)
+      pose proof (conn_disconnect_inv_gen MTop s1 x (acc ++ o1) (or_introl eq_refl) C) as Q. rewrite D in Q.
+      specialize (Q eq_refl eq_refl eq_refl (Inv_neutral _ _ _ _ o1 Hn Hx)).
+      destruct (conn_disconnect_frame s1) as (_ & _ & _ & _ & F5).
+      assert (Rp1 : reset_parser (fst (conn_disconnect s1)) = reset_parser s1).
+      { destruct (st s1) eqn:E; [rewrite conn_disconnect_idle by assumption; reflexivity| |];
+          (destruct (sm_alloc s1) eqn:A;
+           [ assert (Hs1 : st s1 <> Disconnected) by congruence;
+             destruct (conn_disconnect_spec s1 Hs1 A) as (s' & l & sb & E1 & _ & _ & _ & D'); rewrite E1; cbn [fst];
+             change (d_rp (deep s') = d_rp (deep s1)); rewrite D'; reflexivity
+           | unfold conn_disconnect; rewrite E, A; reflexivity ]). }
+      destruct (conn_disconnect s1) as [s2 o2]. cbn [fst snd] in *.
+      split; [|split].
+      * rewrite app_assoc. exact Q.
+      * intros R. rewrite Rp1. change (d_rp (deep s1) = false). rewrite D. rewrite <- Rpx in R. exact R.
+      * pose proof (core_fields _ _ C) as (F1 & _ & _ & F4 & _).
+        assert (Ha : sm_alloc s1 = true) by (rewrite F4; apply (K2 _ _ (IL _ _ _ _ _ Hx)); change (st x <> Disconnected); congruence).
+        rewrite F5; [discriminate|congruence|exact Ha].
+  - cbn [negb]. destruct (is_raw x) eqn:Rw; cbn [fst snd].
+    + split; [|split].
+      * cbn [app]. unfold Inv.
+        apply (InvV_established None (core s) _ (deep s) _ acc (acc ++ [ORawConnect])); try reflexivity; try assumption; [|auto].
+        exact (LifeI_rawconnect (core s) acc Hst (IL _ _ _ _ _ H)).
+      * intros R. exact R.
+      * discriminate.
+    + rewrite app_nil_r. split; [|split].
+      * apply (Inv_frame _ _ x); [apply conn_open_stream_core|apply conn_open_stream_deep|exact Hx].
+      * intros R. change (d_rp (deep (conn_open_stream x)) = false). rewrite conn_open_stream_deep. exact R.
+      * apply Cx. apply conn_open_stream_core.
+Qed.
+
+Lemma sock_connect_neutral c : forallb neutral (fst (sock_connect c)) = true.
+Proof. induction c as [|k r IH]; cbn [sock_connect]; [reflexivity|]. destruct k; try reflexivity. destruct (sock_connect r) as [o x]. cbn [fst] in *. exact IH. Qed.
+Lemma connect_next_spec now s :
+  let '(s', o, ok) := connect_next now s in core s' = core s /\ deep s' = deep s /\ forallb neutral o = true.
+Proof.
+  unfold connect_next. pose proof (sock_connect_neutral (cands s)) as Q. destruct (sock_connect (cands s)) as [o [[k r]|]]; cbn [fst] in Q;
+    (split; [reflexivity|split; [reflexivity|exact Q]]).
+Qed.
+
+(* giving up a connection attempt: the model sets the state itself *)
+Lemma giveup_inv s acc l e se : st s <> Disconnected -> forallb neutral l = true -> Inv MTop None s acc ->
+  Inv MTop None (reset_sm_for_reconnect (set_neg_done false (set_st Disconnected (set_err e s)))) (acc ++ l ++ [ODisconnect e se]).
+Proof.
+  intros Hst Hn H. unfold Inv. rewrite reset_sm_core, reset_sm_deep.
+  destruct H as [HL [s1 s2 s3] [df dts dp dm dh0] HM].
+  apply (InvV_disconnect MTop None (core s) (deep s) acc l e se (c_sebad (core s))); try assumption; try reflexivity; auto.
+Qed.
+
+Lemma send_phase_inv s acc : Inv MTop None s acc -> RInv MTop None acc (send_phase s) /\
+  (st (fst (send_phase s)) = st s \/ st (fst (send_phase s)) = Disconnected) /\
+  reset_parser (fst (send_phase s)) = reset_parser s /\ ps (fst (send_phase s)) = ps s.
+Proof.
+  intros H. unfold RInv, send_phase.
+  destruct (st s) eqn:Hst.
+  1: { cbn [ret fst snd]. rewrite app_nil_r. auto. }
+  1: { cbn [ret fst snd]. rewrite app_nil_r. auto. }
+  cbv zeta.
+  set (o := map (fun x => OWire (tls_present s) (fst (fst x))) (sendq s)).
+  assert (Ho : forallb neutral o = true) by (unfold o; induction (sendq s); [reflexivity|cbn [map forallb]; rewrite IHl; reflexivity]).
+  set (s1 := set_sm_sent _ _).
+  assert (C1 : core s1 = core s) by reflexivity. assert (D1 : deep s1 = deep s) by reflexivity.
+  assert (H1 : Inv MTop None s1 (acc ++ o)) by (apply Inv_neutral; [exact Ho|]; apply (Inv_frame _ _ s); assumption).
+  assert (S1' : st s1 = Connected) by (pose proof (core_fields _ _ C1) as (F1 & _); congruence).
+  assert (Rp1 : reset_parser s1 = reset_parser s) by (apply (deep_fields _ _ D1)).
+  assert (Ps1 : ps s1 = ps s) by (apply (deep_fields _ _ D1)).
+  clearbody s1 o.
+  destruct (negb (err s1 =? 0)).
+  - set (x := set_err ECONNABORTED s1).
+    pose proof (conn_disconnect_inv_gen MTop x s1 (acc ++ o) (or_introl eq_refl) eq_refl eq_refl eq_refl eq_refl H1) as Q.
+    destruct (conn_disconnect_frame x) as (_ & _ & _ & F4 & F5).
+    assert (Ha : sm_alloc x = true) by (apply (K2 _ _ (IL _ _ _ _ _ H1)); change (st s1 <> Disconnected); congruence).
+    assert (Rp : reset_parser (fst (conn_disconnect x)) = reset_parser x).
+    { assert (Hs1 : st x <> Disconnected) by (change (st s1 <> Disconnected); congruence).
+      destruct (conn_disconnect_spec x Hs1 Ha) as (s' & l & sb & E1 & _ & _ & _ & D'). rewrite E1. cbn [fst].
+      change (d_rp (deep s') = d_rp (deep x)). rewrite D'. reflexivity. }
+    destruct (conn_disconnect x) as [s2 o2]. cbn [fst snd] in *. rewrite app_assoc.
+    split; [exact Q|]. split; [right; apply F5; [change (st s1 <> Disconnected); congruence|exact Ha]|].
+    split; [rewrite Rp; exact Rp1|change (d_ps (deep s2) = ps s); rewrite F4; exact Ps1].
+  - cbn [fst snd]. split; [exact H1|]. split; [left; exact S1'|]. split; assumption.
+Qed.
+
+Lemma Inv_reset_parser p s acc : Inv MTop p s acc -> Inv MTop p (set_ps PDepth0 (set_reset_parser false s)) acc.
+Proof.
+  intros [HL [s1 s2 s3] [df dts dp dm dh0] HM].
+  constructor; [exact HL | constructor | constructor | exact I]; try assumption.
+  intros A B. destruct (s3 A B) as [Q|[Q1 _]]; [left; exact Q|right; split; [exact Q1|right; reflexivity]].
+Qed.
+
+(* what holds between the phases of xmpp_run_once *)
+Definition PH (s : state) (a : emit) : Prop :=
+  Inv MTop None s a /\ (st s = Connected -> Inv MRun None s a) /\ (st s = Connecting -> reset_parser s = false).
+
+Lemma PH_neutral s a l : forallb neutral l = true -> PH s a -> PH s (a ++ l).
+Proof. intros Hn (A & B & C). split; [now apply Inv_neutral|]. split; [intros E; apply Inv_neutral; auto|exact C]. Qed.
+Lemma PH_frame s s' a : core s' = core s -> deep s' = deep s -> PH s a -> PH s' a.
+Proof.
+  intros C D (A & B & R). pose proof (core_fields _ _ C) as (F1 & _). pose proof (deep_fields _ _ D) as (_ & _ & _ & _ & _ & _ & _ & _ & _ & _ & G11).
+  split; [apply (Inv_frame _ _ s); assumption|]. split.
+  - intros E. apply (Inv_frame _ _ s); try assumption. apply B. congruence.
+  - intros E. rewrite G11. apply R. congruence.
+Qed.
+Lemma PH_of_run s a : Inv MRun None s a -> PH s a.
+Proof.
+  intros H. split; [exact (Inv_run_to_top _ _ _ H)|]. split; [intros _; exact H|].
+  intros E. exfalso. destruct (IM _ _ _ _ _ H) as (R1 & _). exact (R1 E).
+Qed.
+Lemma PH_disc s a : st s = Disconnected -> Inv MTop None s a -> PH s a.
+Proof. intros E H. split; [exact H|]. split; intros Q; congruence. Qed.
+
+Lemma ph_fire now s a : PH s a -> PH (fst (fire_timed now s)) (a ++ snd (fire_timed now s)).
+Proof.
+  intros (A & B & C). destruct (st s) eqn:E.
+  - rewrite fire_timed_idle by congruence. cbn [fst snd]. rewrite app_nil_r. split; [exact A|]. split; [intros Q; congruence|intros Q; congruence].
+  - rewrite fire_timed_idle by congruence. cbn [fst snd]. rewrite app_nil_r. split; [exact A|]. split; [intros Q; congruence|intros _; apply C; reflexivity].
+  - apply PH_of_run. apply fire_timed_inv. apply B. reflexivity.
+Qed.
+
+Lemma ph_giveup s a l e se : st s = Connecting -> forallb neutral l = true -> PH s a ->
+  PH (reset_sm_for_reconnect (set_neg_done false (set_st Disconnected (set_err e s)))) (a ++ l ++ [ODisconnect e se]).
+Proof.
+  intros E Hn (A & _). apply PH_disc.
+  - pose proof (core_fields _ _ (reset_sm_core (set_neg_done false (set_st Disconnected (set_err e s))))) as (F1 & _). rewrite F1. reflexivity.
+  - apply giveup_inv; [congruence|exact Hn|exact A].
+Qed.
+
+(* next candidate or give up; used by the connect time-out and by a late connect failure *)
+Lemma ph_next now s a e : st s = Connecting -> PH s a ->
+  let r : R := let '(s', o', ok) := connect_next now s in
+               if ok then (s', o')
+               else let s'' := set_neg_done false (set_st Disconnected (set_err e s')) in
+                    (reset_sm_for_reconnect s'', o' ++ [ODisconnect e (stream_error s'')]) in
+  PH (fst r) (a ++ snd r).
+Proof.
+  intros E H. cbv zeta. pose proof (connect_next_spec now s) as Q. destruct (connect_next now s) as [[s' o'] ok].
+  destruct Q as (C & D & Hn). destruct ok; cbn [fst snd].
+  - apply PH_neutral; [exact Hn|]. apply (PH_frame s); assumption.
+  - apply ph_giveup; [pose proof (core_fields _ _ C) as (F1 & _); congruence|exact Hn|apply (PH_frame s); assumption].
+Qed.
+
+Lemma ph_established now s a : st s = Connecting -> PH s a ->
+  PH (fst (conn_established now (set_st Connected s))) (a ++ snd (conn_established now (set_st Connected s))).
+Proof.
+  intros E (A & _ & C). destruct (conn_established_inv now s a E A) as (Q1 & Q2 & Q3). unfold RInv in Q1.
+  specialize (Q2 (C E)).
+  split; [exact Q1|]. split; [intros Q; apply Inv_top_to_run; assumption|intros Q; congruence].
+Qed.
+
+Lemma ph_read now rd s a : st s = Connected -> PH s a ->
+  let r : R := match rd with
+               | RdNone => ret s
+               | RdChunk its => let '(s', o', bad) := feed_items now its s in
+                                if bad then (send_gated WStreamErr false false s', o') else (s', o')
+               | RdClose => if tls_present s then conn_disconnect (set_err ECONNRESET s) else conn_disconnect (set_err ECONNRESET s)
+               | RdReset => conn_disconnect (set_err ECONNRESET s)
+               end in
+  PH (fst r) (a ++ snd r).
+Proof.
+  intros E (A & B & C). specialize (B E). cbv zeta.
+  assert (Hd : PH (fst (conn_disconnect (set_err ECONNRESET s))) (a ++ snd (conn_disconnect (set_err ECONNRESET s)))).
+  { apply PH_of_run. apply (conn_disconnect_inv_gen MRun (set_err ECONNRESET s) s a); try reflexivity; [right; reflexivity|exact B]. }
+  destruct rd as [|its| |].
+  - cbn [ret fst snd]. rewrite app_nil_r. apply PH_of_run. exact B.
+  - assert (Hf : Inv MFeed None s a) by (apply Inv_run_to_feed; [intros Q; congruence|exact B]).
+    pose proof (feed_items_inv now its s a Hf) as Q. destruct (feed_items now its s) as [[s' o'] bad]. cbn [fst snd] in Q.
+    apply Inv_feed_to_run in Q.
+    destruct bad; cbn [fst snd]; apply PH_of_run; [|exact Q].
+    apply (Inv_frame _ _ s'); [apply send_gated_core|apply send_gated_deep|exact Q].
+  - destruct (tls_present s); exact Hd.
+  - exact Hd.
+Qed.
+
+Lemma run_once_inv now rd s acc : Inv MTop None s acc -> RInv MTop None acc (run_once now rd s).
+Proof.
+  intros H. unfold RInv, run_once.
+  assert (Hc : crashed s = false) by (destruct (K1 _ _ (IL _ _ _ _ _ H)) as [Q _]; exact Q).
+  rewrite Hc.
+  set (sa := match rd with RdNone => s | _ => match st s with Disconnected => s | _ => set_rxq (rxq s ++ [rd]) s end end).
+  assert (Ha : Inv MTop None sa acc).
+  { subst sa. destruct rd; try exact H; destruct (st s); try exact H; (apply (Inv_frame _ _ s); [reflexivity|reflexivity|exact H]). }
+  clearbody sa.
+  (* send phase *)
+  destruct (send_phase_inv sa acc Ha) as (H1 & _ & _ & _). unfold RInv in H1.
+  destruct (send_phase sa) as [s1 o1]. cbn [fst snd] in H1.
+  assert (Hc1 : crashed s1 = false) by (destruct (K1 _ _ (IL _ _ _ _ _ H1)) as [Q _]; exact Q).
+  rewrite Hc1.
+  (* parser reset *)
+  set (s2 := if reset_parser s1 then set_ps PDepth0 (set_reset_parser false s1) else s1).
+  assert (H2 : PH s2 (acc ++ o1)).
+  { assert (A2 : Inv MTop None s2 (acc ++ o1)) by (subst s2; destruct (reset_parser s1); [apply Inv_reset_parser|]; exact H1).
+    assert (R2 : reset_parser s2 = false) by (subst s2; destruct (reset_parser s1) eqn:R; [reflexivity|exact R]).
+    split; [exact A2|]. split; [intros E; apply Inv_top_to_run; assumption|intros _; exact R2]. }
+  clearbody s2.
+  (* timed handlers *)
+  pose proof (ph_fire now s2 _ H2) as H3. destruct (fire_timed now s2) as [s3 o3]. cbn [fst snd] in H3.
+  assert (Hc3 : crashed s3 = false) by (destruct H3 as (A & _); destruct (K1 _ _ (IL _ _ _ _ _ A)) as [Q _]; exact Q).
+  rewrite Hc3.
+  (* watch phase *)
+  lazymatch goal with |- Inv _ _ (fst ?T) _ => lazymatch T with match ?F with _ => _ end => set (r4 := F) end end.
+  assert (H4 : PH (fst r4) ((acc ++ o1 ++ o3) ++ snd r4)).
+  { rewrite <- app_assoc in H3. subst r4. destruct (st s3) eqn:E3; try (cbn [ret fst snd]; rewrite app_nil_r; exact H3).
+    destruct (now - stamp s3 <=? CONNECT_TIMEOUT); [cbn [ret fst snd]; rewrite app_nil_r; exact H3|].
+    exact (ph_next now s3 _ ETIMEDOUT E3 H3). }
+  destruct r4 as [s4 o4]. cbn [fst snd] in H4.
+  (* anything ready? *)
+  match goal with |- context [if negb ?b then _ else _] => destruct (negb b) end.
+  { cbn [fst snd]. replace (acc ++ o1 ++ o3 ++ o4 ++ [OIter]) with (((acc ++ o1 ++ o3) ++ o4) ++ [OIter]) by (rewrite <- !app_assoc; reflexivity).
+    apply Inv_neutral; [reflexivity|apply H4]. }
+  (* connect completion / read *)
+  lazymatch goal with |- Inv _ _ (fst ?T) _ => lazymatch T with match ?F with _ => _ end => set (r5 := F) end end.
+  assert (H5 : PH (fst r5) (((acc ++ o1 ++ o3) ++ o4) ++ snd r5)).
+  { subst r5. destruct (st s4) eqn:E4.
+    - cbn [ret fst snd]. rewrite app_nil_r. exact H4.
+    - destruct (cur_ep s4); try (cbn [ret fst snd]; rewrite app_nil_r; exact H4).
+      + exact (ph_established now s4 _ E4 H4).
+      + exact (ph_next now s4 _ (-1) E4 H4).
+    - cbv zeta.
+      assert (Hx : PH (set_rxq (tl (rxq s4)) s4) ((acc ++ o1 ++ o3) ++ o4)) by (apply (PH_frame s4); [reflexivity|reflexivity|exact H4]).
+      exact (ph_read now (match rxq s4 with [] => RdNone | x :: _ => x end) (set_rxq (tl (rxq s4)) s4) _ E4 Hx). }
+  destruct r5 as [s5 o5]. cbn [fst snd] in H5.
+  assert (Hc5 : crashed s5 = false) by (destruct H5 as (A & _); destruct (K1 _ _ (IL _ _ _ _ _ A)) as [Q _]; exact Q).
+  rewrite Hc5.
+  pose proof (ph_fire now s5 _ H5) as H6. destruct (fire_timed now s5) as [s6 o6]. cbn [fst snd] in *.
+  replace (acc ++ o1 ++ o3 ++ o4 ++ o5 ++ o6 ++ [OIter]) with (((((acc ++ o1 ++ o3) ++ o4) ++ o5) ++ o6) ++ [OIter]) by (rewrite <- !app_assoc; reflexivity).
+  apply Inv_neutral; [reflexivity|apply H6].
+Qed.
+
+(* ------------------------------------------------------------------ operations on a disconnected object *)
+Lemma InvV_disc_change p p' c c' d d' acc :
+  c_st c = Disconnected -> c_st c' = Disconnected -> c_nd c' = c_nd c ->
+  (c_raw c' = c_raw c \/ c_raw c' = true) -> c_crashed c' = c_crashed c ->
+  c_att c' = c_att c -> c_nc c' = c_nc c -> c_ndisc c' = c_ndisc c -> c_rawc c' = c_rawc c -> c_sebad c' = c_sebad c ->
+  (d_dis d' = true -> d_mand d' = false) -> d_tlss d' = false ->
+  InvV MTop p c d acc -> InvV MTop p' c' d' acc.
+Proof.
+  intros E0 E1 E2 E3 E4 E5 E6 E7 E8 E9 Df' Dts' [[L1 L2 L3 L4 L5 L6 L7 L8 K1 K2] [s1 s2 s3] HD HM].
+  assert (N : forall P : Prop, c_st c' <> Disconnected -> P) by (intros P Q; exfalso; exact (Q E1)).
+  constructor; [ | | | exact I].
+  - constructor; unfold vC, vD, vR, vB in *; rewrite ?E2, ?E4, ?E5, ?E6, ?E7, ?E8; try (intros Q; apply N; exact Q).
+    + intros _. apply L2. exact E0.
+    + intros _. apply L3. exact E0.
+    + intros Q. rewrite (L3 E0) in Q. discriminate Q.
+    + destruct E3 as [-> | ->]; [exact L6|left; reflexivity].
+    + exact L7.
+    + exact L8.
+    + exact K1.
+  - constructor; rewrite ?E9; try assumption; intros Q; apply N; exact Q.
+  - constructor; try assumption; try (intros Q; apply N; exact Q). intros Q. congruence.
+Qed.
+
+Lemma set_flags_Df w s : (f_tls_disabled s = true -> f_tls_mandatory s = false) ->
+  f_tls_disabled (fst (set_flags w s)) = true -> f_tls_mandatory (fst (set_flags w s)) = false.
+Proof.
+  intros H. unfold set_flags. destruct (st s); try exact H.
+  destruct (testbit w flag_conflict_a && existsb (testbit w) flag_conflict_b) eqn:C; cbn [fst]; [exact H|].
+  sproj. intros D. change flag_conflict_a with FLAG_DISABLE_TLS in C. rewrite D in C. cbn [andb] in C.
+  unfold flag_conflict_b in C. cbn [existsb] in C. apply orb_false_iff in C. apply C.
+Qed.
+Lemma set_flags_frame w s : core (fst (set_flags w s)) = core s /\
+  d_handlers (deep (fst (set_flags w s))) = d_handlers (deep s) /\ d_tlss (deep (fst (set_flags w s))) = d_tlss (deep s) /\
+  (st s <> Disconnected -> fst (set_flags w s) = s).
+Proof.
+  unfold set_flags. destruct (st s) eqn:E; cbn [fst]; try (repeat split; try reflexivity; intros _; reflexivity).
+  destruct (testbit w flag_conflict_a && existsb (testbit w) flag_conflict_b); cbn [fst]; repeat split; try reflexivity; intros Q; congruence.
+Qed.
+
+Lemma Inv_disc_frame p p' s s' acc :
+  st s = Disconnected -> st s' = Disconnected -> neg_done s' = neg_done s ->
+  (is_raw s' = is_raw s \/ is_raw s' = true) -> crashed s' = crashed s ->
+  g_attempt (gh s') = g_attempt (gh s) -> g_connects (gh s') = g_connects (gh s) -> g_disconnects (gh s') = g_disconnects (gh s) ->
+  g_rawc (gh s') = g_rawc (gh s) -> g_se_bad (gh s') = g_se_bad (gh s) ->
+  (f_tls_disabled s' = true -> f_tls_mandatory s' = false) -> tls_support s' = false ->
+  Inv MTop p s acc -> Inv MTop p' s' acc.
+Proof. intros. apply (InvV_disc_change p p' (core s) (core s') (deep s) (deep s') acc); assumption. Qed.
+
+Lemma Inv_Df m p s acc : Inv m p s acc -> f_tls_disabled s = true -> f_tls_mandatory s = false.
+Proof. intros H. exact (Df _ _ (ID _ _ _ _ _ H)). Qed.
+
+Lemma set_flags_inv w s acc : Inv MTop None s acc -> Inv MTop None (fst (set_flags w s)) acc.
+Proof.
+  intros H. destruct (st s) eqn:E.
+  - destruct (set_flags_frame w s) as (C & _ & T & _). pose proof (core_fields _ _ C) as (F1 & F2 & F3 & _ & F5 & _ & F7 & F8 & F9 & F10 & _ & F12).
+    apply (Inv_disc_frame None None s); try assumption; try congruence; auto.
+    + apply set_flags_Df. exact (Inv_Df _ _ _ _ H).
+    + change (d_tlss (deep (fst (set_flags w s))) = false). rewrite T. exact (Inv_tlss _ _ _ _ H).
+  - destruct (set_flags_frame w s) as (_ & _ & _ & Q). rewrite Q by congruence. exact H.
+  - destruct (set_flags_frame w s) as (_ & _ & _ & Q). rewrite Q by congruence. exact H.
+Qed.
+
+(* ------------------------------------------------------------------ a successful connect starts a new attempt *)
+Lemma InvV_connect_ok raw crashed0 l ps0 tlsp mand dis h o :
+  crashed0 = false -> forallb neutral o = true ->
+  (forall k, In k l -> k = HUser) ->
+  (raw = false -> oh_first h = true) -> (oh_pre h = false -> mand = false) -> (dis = true -> mand = false) ->
+  InvV MTop None (mkCore Connecting false raw true crashed0 None true O O false None false)
+       (mkDeep l [] h ps0 false tlsp false false mand dis true) o.
+Proof.
+  intros Hc Hn Hl Hr Hm Hd. destruct (neutral_facts o Hn) as (N1 & N2 & N3 & N4).
+  constructor; [ | | | exact I].
+  - constructor; unfold vC, vD, vR, vB; core_simpl; rewrite ?N1, ?N2, ?N3, ?N4; cbn [Nat.add Nat.ltb Nat.leb andb orb];
+      try (intros; discriminate); auto.
+    now apply scan_neutral.
+  - constructor; core_simpl; deep_simpl; auto.
+  - constructor; unfold is_sec, near4; core_simpl; deep_simpl.
+    + exact Hd.
+    + reflexivity.
+    + intros _ Q. apply Hl in Q. discriminate Q.
+    + intros _ B _. split; [intros k Q; rewrite (Hl k Q); reflexivity|]. split; [reflexivity|].
+      destruct (oh_pre h) eqn:E; [reflexivity|]. rewrite (Hm eq_refl) in B. discriminate B.
+    + intros _ Q. apply Hl in Q. discriminate Q.
+Qed.
+
+Lemma conn_reset_facts s : st s = Disconnected ->
+  st (conn_reset s) = Disconnected /\ neg_done (conn_reset s) = false /\ is_raw (conn_reset s) = is_raw s /\
+  crashed (conn_reset s) = crashed s /\ gh (conn_reset s) = gh s /\
+  f_tls_disabled (conn_reset s) = f_tls_disabled s /\ f_tls_mandatory (conn_reset s) = f_tls_mandatory s /\
+  tls_support (conn_reset s) = false /\ secured (conn_reset s) = false /\ tls_failed (conn_reset s) = false /\
+  (forall k, In k (hkinds (conn_reset s)) -> k = HUser) /\ idhandlers (conn_reset s) = [] /\ stream_error (conn_reset s) = None /\
+  cands (conn_reset s) = cands s /\ ps (conn_reset s) = ps s /\ tls_present (conn_reset s) = tls_present s.
+Proof.
+  intros E. unfold conn_reset. rewrite E. cbv zeta. do 10 (split; [first [reflexivity|exact E]|]). split; [|repeat split; reflexivity].
+  intros k Hk. unfold hkinds in Hk. cbn [handlers set_timed set_idhandlers set_handlers] in Hk. apply in_map_iff in Hk. destruct Hk as (x & <- & Hx). apply filter_In in Hx.
+  destruct Hx as [_ Hx]. now apply hkind_eqb_eq.
+Qed.
+
+Lemma conn_connect_inv now t s : st s = Disconnected -> Inv MTop None s [] ->
+  (t = TComponent -> f_tls_disabled s = true) ->
+  let '(s', o, rc) := conn_connect now t s in Inv MTop None s' o /\ forallb neutral o = true.
+Proof.
+  intros E H Ht. unfold conn_connect. rewrite E. cbv zeta.
+  destruct (conn_reset_facts s E) as (R1 & R2 & R3 & R4 & R5 & R6 & R7 & R8 & R9 & R10 & R11 & R12 & R13 & R14 & R15 & R16).
+  set (cr := conn_reset s) in *. clearbody cr.
+  set (s1 := set_typ t (set_sm_alloc true cr)).
+  change (cands s1) with (cands cr). rewrite R14.
+  pose proof (sock_connect_neutral (cands s)) as Hn. destruct (sock_connect (cands s)) as [o [[k r]|]]; cbn [fst] in Hn.
+  - split; [|exact Hn].
+    set (h := if is_raw s1 then OpenStub else match t with TClient => OpenAuth | TComponent => OpenComponent end).
+    set (f := set_gh _ _).
+    assert (Cf : core f = mkCore Connecting false (is_raw s) true (crashed s) None true O O false None false).
+    { transitivity (mkCore Connecting (neg_done cr) (is_raw cr) true (crashed cr) (stream_error cr) true O O false None false); [reflexivity|].
+      rewrite R2, R3, R4, R13. reflexivity. }
+    assert (Df' : deep f = mkDeep (hkinds cr) [] h (ps s) false (tls_present s) false false (f_tls_mandatory s) (f_tls_disabled s) true).
+    { transitivity (mkDeep (hkinds cr) (map fst (idhandlers cr)) h (ps cr) (secured cr) (tls_present cr) (tls_failed cr) (tls_support cr) (f_tls_mandatory cr) (f_tls_disabled cr) true); [reflexivity|].
+      rewrite R6, R7, R8, R9, R10, R12, R15, R16. reflexivity. }
+    unfold Inv. rewrite Cf, Df'.
+    apply InvV_connect_ok; try assumption.
+    + destruct (K1 _ _ (IL _ _ _ _ _ H)) as [Q _]. exact Q.
+    + intros Q. unfold h. change (is_raw s1) with (is_raw cr). rewrite R3, Q. destruct t; reflexivity.
+    + intros Q. unfold h in Q. destruct (is_raw s1); [discriminate Q|]. destruct t; [discriminate Q|].
+      apply (Inv_Df _ _ _ _ H). apply Ht. reflexivity.
+    + exact (Inv_Df _ _ _ _ H).
+  - split; [|exact Hn].
+    assert (Hnd : neg_done s = false) by (apply (L3 _ _ (IL _ _ _ _ _ H)); exact E).
+    pose proof (Inv_Df _ _ _ _ H) as HDf.
+    apply Inv_neutral with (l := o) in H; [|exact Hn]. cbn [app] in H.
+    apply (Inv_disc_frame None None s (set_cands [] s1) o E).
+    + exact R1.
+    + change (neg_done cr = neg_done s). congruence.
+    + left. exact R3.
+    + exact R4.
+    + change (g_attempt (gh cr) = g_attempt (gh s)). rewrite R5. reflexivity.
+    + change (g_connects (gh cr) = g_connects (gh s)). rewrite R5. reflexivity.
+    + change (g_disconnects (gh cr) = g_disconnects (gh s)). rewrite R5. reflexivity.
+    + change (g_rawc (gh cr) = g_rawc (gh s)). rewrite R5. reflexivity.
+    + change (g_se_bad (gh cr) = g_se_bad (gh s)). rewrite R5. reflexivity.
+    + change (f_tls_disabled cr = true -> f_tls_mandatory cr = false). rewrite R6, R7. exact HDf.
+    + exact R8.
+    + exact H.
+Qed.
+
+Lemma conn_connect_live now t s : st s <> Disconnected -> conn_connect now t s = (s, [], XMPP_EINVOP).
+Proof. intros H. unfold conn_connect. destruct (st s); [congruence| |]; reflexivity. Qed.
+
+Lemma connect_client_inv now s : Inv MTop None s [] ->
+  let '(s', o, rc) := connect_client now s in Inv MTop None s' o /\ forallb neutral o = true.
+Proof.
+  intros H. unfold connect_client.
+  set (s1 := if negb (jid_set s) && cert_set s then set_jid_res false (set_jid_node true (set_jid_set true s)) else s).
+  assert (H1 : Inv MTop None s1 []) by (subst s1; destruct (negb (jid_set s) && cert_set s); [apply (Inv_frame _ _ s); [reflexivity|reflexivity|]|]; exact H).
+  clearbody s1. destruct (negb (jid_set s1)); [split; [exact H1|reflexivity]|].
+  set (s2 := set_cands (next_cands s1) s1).
+  assert (H2 : Inv MTop None s2 []) by (apply (Inv_frame _ _ s1); [reflexivity|reflexivity|exact H1]).
+  destruct (st s2) eqn:E.
+  - apply conn_connect_inv; [exact E|exact H2|discriminate].
+  - rewrite conn_connect_live by congruence. split; [exact H2|reflexivity].
+  - rewrite conn_connect_live by congruence. split; [exact H2|reflexivity].
+Qed.
+
+Lemma connect_component_inv now s : Inv MTop None s [] ->
+  let '(s', o, rc) := connect_component now s in Inv MTop None s' o /\ forallb neutral o = true.
+Proof.
+  intros H. unfold connect_component.
+  destruct (negb (jid_set s && pass_set s)); [split; [exact H|reflexivity]|]. cbv zeta.
+  set (w' := if f_tls_disabled s then flags_readback s else flags_readback s + FLAG_DISABLE_TLS).
+  pose proof (set_flags_inv w' s [] H) as H1. destruct (set_flags w' s) as [s1 rc]. cbn [fst] in H1.
+  destruct (f_tls_disabled s1) eqn:D; cbn [negb]; [|split; [exact H1|reflexivity]].
+  set (s2 := set_cands (next_cands s1) s1).
+  assert (H2 : Inv MTop None s2 []) by (apply (Inv_frame _ _ s1); [reflexivity|reflexivity|exact H1]).
+  destruct (st s2) eqn:E.
+  - apply conn_connect_inv; [exact E|exact H2|intros _; exact D].
+  - rewrite conn_connect_live by congruence. split; [exact H2|reflexivity].
+  - rewrite conn_connect_live by congruence. split; [exact H2|reflexivity].
+Qed.
+
+(* ------------------------------------------------------------------ one operation *)
+Definition query_op (o : op) : bool := match o with OpIs | OpSetFlags _ => true | _ => false end.
+Lemma step0_inv s o : query_op o = false -> Inv MTop None s [] -> RInv MTop None [] (step0 s o).
+Proof.
+  intros Hq H. unfold RInv, step0.
+  assert (Hc : crashed s = false) by (destruct (K1 _ _ (IL _ _ _ _ _ H)) as [Q _]; exact Q).
+  rewrite Hc. cbn [app].
+  assert (Hpl : forall x, core x = core s -> deep x = deep s -> Inv MTop None x []) by (intros x C D; apply (Inv_frame _ _ s); assumption).
+  destruct o as [w|n r|b|b|now h t|tn cb v|eps|now|now|now|now rd|now| | | | | ].
+  - discriminate Hq.
+  - destruct (st s); cbn [ret fst snd]; first [exact H | apply Hpl; reflexivity].
+  - destruct (st s); cbn [ret fst snd]; first [exact H | apply Hpl; reflexivity].
+  - destruct (st s); cbn [ret fst snd]; first [exact H | apply Hpl; reflexivity].
+  - destruct (st s) eqn:E; cbn [ret fst snd]; try exact H.
+    set (s1 := if h then h_add HUser s else s).
+    assert (H1 : Inv MTop None s1 []).
+    { subst s1. destruct h; [|exact H]. apply Inv_h_add_pre; [reflexivity|discriminate|intros [Q|Q]; discriminate Q|exact H]. }
+    clearbody s1.
+    apply (Inv_frame_fun _ _ (fun x => set_user_timed t (set_user_handler h x))); [intro; reflexivity|intro; reflexivity|].
+    destruct t; [|exact H1]. apply (Inv_frame _ _ s1); [apply timed_add_core|apply timed_add_deep|exact H1].
+  - destruct (st s); cbn [ret fst snd]; first [exact H | apply Hpl; reflexivity].
+  - cbn [ret fst snd]. first [exact H | apply Hpl; reflexivity].
+  - pose proof (connect_client_inv now s H) as Q. destruct (connect_client now s) as [[s1 o1] rc]. cbn [fst snd].
+    destruct Q as [Q _]. exact (Inv_neutral _ _ _ _ [ORet rc] eq_refl Q).
+  - destruct (st s) eqn:E; cbn [fst snd]; try exact (Inv_neutral _ _ _ _ [ORet XMPP_EINVOP] eq_refl H).
+    assert (Hr : Inv MTop None (set_is_raw true s) []).
+    { apply (Inv_disc_frame None None s); try reflexivity; try assumption; [right; reflexivity| |].
+      - exact (Inv_Df _ _ _ _ H).
+      - exact (Inv_tlss _ _ _ _ H). }
+    pose proof (connect_client_inv now _ Hr) as Q. destruct (connect_client now (set_is_raw true s)) as [[s1 o1] rc]. cbn [fst snd].
+    destruct Q as [Q _]. exact (Inv_neutral _ _ _ _ [ORet rc] eq_refl Q).
+  - pose proof (connect_component_inv now s H) as Q. destruct (connect_component now s) as [[s1 o1] rc]. cbn [fst snd].
+    destruct Q as [Q _]. exact (Inv_neutral _ _ _ _ [ORet rc] eq_refl Q).
+  - exact (run_once_inv now rd s [] H).
+  - cbn [ret fst snd]. apply Hpl; [apply xmpp_disconnect_core|apply xmpp_disconnect_deep].
+  - cbn [ret fst snd]. apply Hpl; [apply send_gated_core|apply send_gated_deep].
+  - cbn [ret fst snd]. apply Hpl; [apply send_raw_m_core|apply send_raw_m_deep].
+  - discriminate Hq.
+  - destruct (is_raw s) eqn:R; cbn [ret fst snd]; [|exact H].
+    apply (Inv_frame _ _ (prepare_reset OpenRaw s)); [apply conn_open_stream_core|apply conn_open_stream_deep|].
+    apply Inv_prepare_reset; [intros _ Q; congruence|intros Q; discriminate Q|exact H].
+  - destruct (st s) eqn:E; try (cbn [ret fst snd]; exact H); exact (conn_disconnect_inv MTop s [] (or_introl eq_refl) H).
+Qed.
+
+(* the observer commits the outputs of the step *)
+Lemma note_outs_inv s outs : Inv MTop None s outs -> Inv MTop None (note_outs outs s) [].
+Proof.
+  intros H. unfold note_outs.
+  destruct (fold_note_out_fields outs (gh s)) as (G1 & G2 & G3 & G4 & G5 & G6 & _).
+  set (g' := fold_left note_out outs (gh s)) in *. clearbody g'.
+  unfold Inv. change (deep (set_gh g' s)) with (deep s).
+  assert (C : core (set_gh g' s) =
+              mkCore (c_st (core s)) (c_nd (core s)) (c_raw (core s)) (c_alloc (core s)) (c_crashed (core s)) (c_se (core s))
+                     (c_att (core s)) (c_nc (core s) + cnt is_conn outs)%nat (c_ndisc (core s) + cnt is_dsc outs)%nat
+                     (c_rawc (core s) || existsb is_rawc outs) (c_serr (core s)) (c_sebad (core s))).
+  { unfold core. sproj. core_simpl. rewrite G1, G2, G3, G4, G5, G6. reflexivity. }
+  rewrite C.
+  destruct H as [[L1 L2 L3 L4 L5 L6 L7 L8 K1 K2] HS HD HM].
+  apply (InvV_core_change MTop None (core s) _ (deep s) outs []); try reflexivity; [|constructor; try assumption; constructor; assumption].
+  constructor; unfold vC, vD, vR, vB in *; core_simpl; cbn [cnt existsb]; rewrite ?Nat.add_0_r, ?orb_false_r; try assumption.
+  - reflexivity.
+  - split; [apply K1|reflexivity].
+Qed.
+
+Definition TopInv (s : state) : Prop := Inv MTop None s [].
+Lemma note_outs_silent outs s : forallb (fun o => match o with OConnect | ODisconnect _ _ | OTlsStart true | ORawConnect => false | _ => true end) outs = true ->
+  note_outs outs s = set_gh (gh s) s.
+Proof.
+  intros H. unfold note_outs. f_equal. generalize (gh s). induction outs as [|x r IH]; intros g; [reflexivity|].
+  cbn [forallb] in H. apply andb_true_iff in H. destruct H as [H1 H2]. cbn [fold_left].
+  assert (E : note_out g x = g) by (destruct x as [ | | | | [|] | | | | | | | | | ]; try discriminate H1; reflexivity).
+  rewrite E. apply IH. exact H2.
+Qed.
+Lemma step_inv s o : TopInv s -> TopInv (fst (step s o)).
+Proof.
+  intros H. unfold step. destruct (query_op o) eqn:Hq.
+  - assert (Hc : crashed s = false) by (destruct (K1 _ _ (IL _ _ _ _ _ H)) as [Q _]; exact Q).
+    destruct o; try discriminate Hq; unfold step0; rewrite Hc.
+    + pose proof (set_flags_inv w s [] H) as Q. destruct (set_flags w s) as [s1 rc]. cbn [fst snd] in *.
+      rewrite note_outs_silent by reflexivity. apply (Inv_frame _ _ s1); [reflexivity|reflexivity|exact Q].
+    + cbn [fst]. rewrite note_outs_silent by reflexivity. apply (Inv_frame _ _ s); [reflexivity|reflexivity|exact H].
+  - pose proof (step0_inv s o Hq H) as Q. unfold RInv in Q. destruct (step0 s o) as [s1 outs]. cbn [fst snd app] in *.
+    apply note_outs_inv. exact Q.
+Qed.
+
+(* ================================================================== the lifecycle theorems *)
+Lemma TopInv_init : TopInv init_state.
+Proof.
+  unfold TopInv, Inv. constructor; [ | | | exact I].
+  - constructor; unfold vC, vD, vR, vB; cbn; try (intros; discriminate); auto; try (intros Q; exfalso; apply Q; reflexivity).
+  - constructor; cbn; auto; intros Q; exfalso; apply Q; reflexivity.
+  - constructor; cbn; auto; try (intros Q; exfalso; apply Q; reflexivity).
+Qed.
+
+Lemma scan_mono b l : scan_no_connect_after b l = true -> scan_no_connect_after false l = true.
+Proof.
+  revert b. induction l as [|x l IH]; intros b H; [reflexivity|].
+  destruct x; cbn [scan_no_connect_after] in *; try (eapply IH; exact H); try exact H.
+  - apply andb_true_iff in H. destruct H as [_ H]. cbn [negb andb]. eapply IH. exact H.
+  - apply andb_true_iff in H. destruct H as [_ H]. cbn [negb andb]. eapply IH. exact H.
+Qed.
+
+(* nothing is reported by an operation on a disconnected object *)
+Lemma run_once_disc now rd s : st s = Disconnected -> crashed s = false -> snd (run_once now rd s) = [OIter].
+Proof.
+  intros E Hc. unfold run_once. rewrite Hc.
+  assert (Ea : match rd with RdNone => s | _ => match st s with Disconnected => s | _ => set_rxq (rxq s ++ [rd]) s end end = s)
+    by (destruct rd; rewrite ?E; reflexivity).
+  rewrite Ea. unfold send_phase. rewrite E. unfold ret. rewrite Hc.
+  set (s2 := if reset_parser s then set_ps PDepth0 (set_reset_parser false s) else s).
+  assert (E2 : st s2 = Disconnected /\ crashed s2 = false) by (subst s2; destruct (reset_parser s); auto).
+  destruct E2 as [E2 C2]. clearbody s2.
+  rewrite fire_timed_idle by congruence. do 4 (cbv beta iota; rewrite ?C2, ?E2). reflexivity.
+Qed.
+
+Lemma step0_disc_neutral s o : TopInv s -> st s = Disconnected -> forallb neutral (snd (step0 s o)) = true \/ query_op o = true.
+Proof.
+  intros H E. destruct (query_op o) eqn:Hq; [right; reflexivity|left].
+  assert (Hc : crashed s = false) by (destruct (K1 _ _ (IL _ _ _ _ _ H)) as [Q _]; exact Q).
+  unfold step0. rewrite Hc.
+  destruct o as [w|n r|b|b|now h t|tn cb v|eps|now|now|now|now rd|now| | | | | ]; try discriminate Hq; rewrite ?E; try reflexivity.
+  - pose proof (connect_client_inv now s H) as Q. destruct (connect_client now s) as [[s1 o1] rc]. cbn [snd].
+    destruct Q as [_ Q]. rewrite forallb_app, Q. reflexivity.
+  - assert (Hr : Inv MTop None (set_is_raw true s) []).
+    { apply (Inv_disc_frame None None s); try reflexivity; try assumption; [right; reflexivity| |].
+      - exact (Inv_Df _ _ _ _ H).
+      - exact (Inv_tlss _ _ _ _ H). }
+    pose proof (connect_client_inv now _ Hr) as Q. destruct (connect_client now (set_is_raw true s)) as [[s1 o1] rc]. cbn [snd].
+    destruct Q as [_ Q]. rewrite forallb_app, Q. reflexivity.
+  - pose proof (connect_component_inv now s H) as Q. destruct (connect_component now s) as [[s1 o1] rc]. cbn [snd].
+    destruct Q as [_ Q]. rewrite forallb_app, Q. reflexivity.
+  - rewrite run_once_disc by assumption. reflexivity.
+  - destruct (is_raw s); reflexivity.
+Qed.
+
+(* the shape of a step: either a query (state and counters untouched), or the invariant on the outputs *)
+Lemma step_cases s o : TopInv s ->
+  exists s1 outs acc, step s o = (note_outs outs s1, outs) /\ Inv MTop None s1 acc /\
+    cnt is_conn outs = cnt is_conn acc /\ cnt is_dsc outs = cnt is_dsc acc /\ existsb is_rawc outs = existsb is_rawc acc /\
+    scan_no_connect_after (Nat.ltb 0 (g_disconnects (gh s)) && g_attempt (gh s)) outs = true /\
+    existsb (fun o => match o with OCrash => true | _ => false end) outs = false /\
+    (acc = outs \/ (acc = [] /\ forallb (fun o => match o with OConnect | ODisconnect _ _ | OTlsStart true | ORawConnect => false | _ => true end) outs = true)).
+Proof.
+  intros H. unfold step.
+  assert (Hc : crashed s = false) by (destruct (K1 _ _ (IL _ _ _ _ _ H)) as [Q _]; exact Q).
+  destruct (query_op o) eqn:Hq.
+  - destruct o; try discriminate Hq; unfold step0; rewrite Hc.
+    + pose proof (set_flags_inv w s [] H) as Q. destruct (set_flags w s) as [s1 rc]. cbn [fst snd] in *.
+      exists s1, [OFlags rc (flags_readback s1)], [].
+      split; [reflexivity|]. split; [exact Q|]. do 5 (split; [reflexivity|]). right. split; reflexivity.
+    + eexists s, _, [].
+      split; [reflexivity|]. split; [exact H|]. do 5 (split; [reflexivity|]). right. split; reflexivity.
+  - pose proof (step0_inv s o Hq H) as Q. unfold RInv in Q.
+    assert (Hscan : scan_no_connect_after (Nat.ltb 0 (g_disconnects (gh s)) && g_attempt (gh s)) (snd (step0 s o)) = true).
+    { destruct (Nat.ltb 0 (g_disconnects (gh s)) && g_attempt (gh s)) eqn:B.
+      - (* the previous attempt is over: the object is disconnected, the operation reports nothing *)
+        assert (E : st s = Disconnected).
+        { destruct (st s) eqn:E; [reflexivity| |]; exfalso;
+            (assert (N : c_st (core s) <> Disconnected) by (change (st s <> Disconnected); congruence);
+             destruct (L1 _ _ (IL _ _ _ _ _ H) N) as [_ D]; unfold vD in D; cbn in D;
+             apply andb_true_iff in B; destruct B as [B _]; apply Nat.ltb_lt in B; change (c_ndisc (core s)) with (g_disconnects (gh s)) in D; lia). }
+        destruct (step0_disc_neutral s o H E) as [N|N]; [|congruence]. now apply scan_neutral.
+      - apply (scan_mono (vB (core (fst (step0 s o))))). cbn [app] in Q. apply (L7 _ _ (IL _ _ _ _ _ Q)). }
+    destruct (step0 s o) as [s1 outs]. cbn [fst snd app] in *.
+    exists s1, outs, outs. split; [reflexivity|]. split; [exact Q|]. do 3 (split; [reflexivity|]). split; [exact Hscan|]. split.
+    + destruct (K1 _ _ (IL _ _ _ _ _ Q)) as [_ K]. clear - K. induction outs as [|x r IH]; [reflexivity|].
+      cbn [existsb] in *. apply orb_false_iff in K. destruct K as [K1 K2]. rewrite (IH K2). destruct x; try reflexivity; discriminate K1.
+    + left. reflexivity.
+Qed.
+
+(* the committed counters *)
+Lemma commit_fields s1 outs :
+  let s' := note_outs outs s1 in
+  st s' = st s1 /\ neg_done s' = neg_done s1 /\ is_raw s' = is_raw s1 /\ crashed s' = crashed s1 /\
+  g_connects (gh s') = (g_connects (gh s1) + cnt is_conn outs)%nat /\
+  g_disconnects (gh s') = (g_disconnects (gh s1) + cnt is_dsc outs)%nat /\
+  g_rawc (gh s') = (g_rawc (gh s1) || existsb is_rawc outs) /\ g_attempt (gh s') = g_attempt (gh s1) /\
+  g_se_bad (gh s') = g_se_bad (gh s1).
+Proof.
+  cbv zeta. unfold note_outs. destruct (fold_note_out_fields outs (gh s1)) as (G1 & G2 & G3 & G4 & G5 & G6 & _).
+  sproj. repeat split; assumption.
+Qed.
+
+Lemma ok_outcome_step s o : TopInv s -> ok_outcome s o (fst (step s o)) (snd (step s o)) = true.
+Proof.
+  intros H. destruct (step_cases s o H) as (s1 & outs & acc & E & Q & C1 & C2 & C3 & Hscan & _ & _). rewrite E. cbn [fst snd].
+  destruct (commit_fields s1 outs) as (F1 & F2 & F3 & F4 & F5 & F6 & F7 & F8 & F9).
+  unfold ok_outcome. rewrite F1, F3, F5, F6, F8, Hscan, C1, C2.
+  destruct (IL _ _ _ _ _ Q) as [L1 L2 L3 L4 L5 L6 L7 L8 K1 K2]. unfold vC, vD, vR, vB in *. cbn [core c_st c_nd c_raw c_alloc c_crashed c_att c_nc c_ndisc c_rawc] in *.
+  assert (P1 : is_raw s1 || Nat.leb (g_connects (gh s1) + cnt is_conn acc) 1 = true).
+  { destruct L6 as [R|R]; [rewrite R; reflexivity|]. apply Nat.leb_le in R. rewrite R. apply orb_true_r. }
+  assert (P2 : Nat.leb (g_disconnects (gh s1) + cnt is_dsc acc) 1 = true /\
+               (negb (g_attempt (gh s1)) || Bool.eqb (is_disc (st s1)) (Nat.eqb (g_disconnects (gh s1) + cnt is_dsc acc) 1)) = true).
+  { destruct (st s1) eqn:S.
+    - destruct (g_attempt (gh s1)) eqn:A.
+      + rewrite (L2 eq_refl eq_refl). split; reflexivity.
+      + rewrite (L8 eq_refl). split; reflexivity.
+    - assert (N : Connecting <> Disconnected) by discriminate. destruct (L1 N) as [A D]. rewrite D, A. split; reflexivity.
+    - assert (N : Connected <> Disconnected) by discriminate. destruct (L1 N) as [A D]. rewrite D, A. split; reflexivity. }
+  destruct P2 as [P2 P3]. rewrite P1, P2, P3. reflexivity.
+Qed.
+
+Lemma ok_stream_error_step s o : TopInv s -> ok_stream_error s o (fst (step s o)) (snd (step s o)) = true.
+Proof.
+  intros H. pose proof (step_inv s o H) as Q. unfold ok_stream_error.
+  destruct (IS _ _ _ _ _ Q) as [s1 _ _]. change (g_se_bad (gh (fst (step s o))) = false) in s1. rewrite s1. reflexivity.
+Qed.
+
+Lemma ok_nocrash_step s o : TopInv s -> ok_nocrash s o (fst (step s o)) (snd (step s o)) = true.
+Proof.
+  intros H. pose proof (step_inv s o H) as Q. unfold ok_nocrash.
+  destruct (K1 _ _ (IL _ _ _ _ _ Q)) as [C _]. change (crashed (fst (step s o)) = false) in C. rewrite C. cbn [negb andb].
+  destruct (step_cases s o H) as (s1 & outs & acc & E & _ & _ & _ & _ & _ & Hno & _). rewrite E. cbn [snd]. rewrite Hno. reflexivity.
 Qed.
